@@ -1,11 +1,19 @@
-(* Syntax/RoundTrip.v — property C02 on a fragment: parse (render cs t) = t.
+(* Syntax/RoundTrip.v — property C02 on a fragment: parse (render cs t) = Done (t, []).
 
    Structure
-     1. the fragment `simple_resource`
+     1. the fragment `simple_resource`: stand-alone comments; messages and terms whose value and attribute
+        values are one-line patterns of text and simple placeables (see Props/C02.v for the exact wording)
      2. LAYOUTS: an inductive description of every text `render` can print for a tree of the fragment
-        (more generous than render: any number of spaces / blank lines), and `render cs t` is one of them
-     3. the parser on a layout: value, entry, entry list (the main loop), with explicit fuel bounds
-     4. parse (render cs t) = Done (t, []) for the fragment                                          *)
+        (more generous than render: any number of spaces / blank lines, any blank inside braces), and the
+        proof that `render cs t` is one of them (render_layout)
+     3. the parser on a layout, bottom-up, with explicit fuel bounds: the run of blank lines after a pattern
+        line (blank_region), the steps of the pattern loop over text and placeables (step_xxx), the loop over
+        a line and finish_pattern (elements_loop, line_inline, line_block), get_pattern (get_pattern_value),
+        attributes (get_attributes_at), messages and terms, the comment loop (comment_loop_lines,
+        comment_entry_step), one entry and the blank lines after it (entry_step), the main loop with its
+        pending comment (parse_loop_entries)
+     4. parse_layout, parse_render_simple
+     5. the fragment lies inside wf_resource; join_entry is the identity on it                          *)
 From FluentV Require Import Base.Bytes Base.Outcome Base.Utf8 Base.Utf8Facts.
 From FluentV Require Import Syntax.Ast Syntax.ParserModel Syntax.Render Syntax.TreeNorm Syntax.ParseLemmas.
 From Coq Require Import Lia ZifyBool ZifyNat ZifyN.
@@ -19,17 +27,35 @@ Arguments N.leb : simpl never.
 (* ---------------------------------------------------------------------------------------------- *)
 (* 1. The fragment                                                                                  *)
 
-(* one line of pattern text: not empty; no '{' '}' CR LF; no space at either end; its first byte starts a
-   character (true of every Rust str) *)
-Definition simple_text (v : bytes) : bool :=
+(* a stretch of pattern text inside one line: not empty; no '{' '}' CR LF; its first byte starts a character
+   (true of every Rust str) *)
+Definition inner_text (v : bytes) : bool :=
   match v with
   | [] => false
-  | b :: _ =>
-      negb (N.eqb b 32) && negb (is_cont b) && forallb wf_text_byte v && negb (N.eqb (last v 0%N) 32)
+  | b :: _ => negb (is_cont b) && forallb wf_text_byte v
   end.
 
+(* the elements of a one-line pattern: text and placeables with a simple inline expression (a reference
+   without call arguments or a literal: ParseLemmas.simple_inline); no two text elements in a row *)
+Fixpoint simple_elements (l : list pattern_element) (prev_text : bool) : bool :=
+  match l with
+  | [] => true
+  | TextElement v :: r => negb prev_text && inner_text v && simple_elements r true
+  | PlaceableElement (Inline i) :: r => simple_inline i && simple_elements r false
+  | PlaceableElement (Select _ _) :: _ => false
+  end.
+
+(* no space at the start and at the end of the line *)
+Definition first_ok (els : list pattern_element) : bool :=
+  match els with TextElement (b :: _) :: _ => negb (N.eqb b 32) | _ => true end.
+Definition last_ok (els : list pattern_element) : bool :=
+  match rev els with TextElement v :: _ => negb (N.eqb (last v 0%N) 32) | _ => true end.
+
 Definition simple_pattern (p : pattern) : bool :=
-  match p with Pattern [TextElement v] => simple_text v | _ => false end.
+  match p with
+  | Pattern els =>
+      negb (match els with [] => true | _ => false end) && simple_elements els false && first_ok els && last_ok els
+  end.
 
 Definition simple_attribute (a : attribute) : bool :=
   wf_identifier (attr_id a) && simple_pattern (attr_value a).
@@ -63,18 +89,27 @@ Definition simple_resource (t : resource) : bool := forallb simple_entry t.
 (* ---------------------------------------------------------------------------------------------- *)
 (* 2. Layouts                                                                                       *)
 
-Inductive value_layout (v : bytes) : bytes -> Prop :=
-| vl_inline k : value_layout v (sp k ++ v)
-| vl_block k x c BL ind :
-    first_byte_ok_for_block (Pattern [TextElement v]) = true ->
-    is_eol_bytes x -> blank_lines_of c BL -> 1 <= ind ->
-    value_layout v (sp k ++ x ++ BL ++ sp ind ++ v).
+(* one line of pattern: text as it is; a placeable as "{" blank inline blank "}" *)
+Inductive line_layout : list pattern_element -> bytes -> Prop :=
+| ll_nil : line_layout [] []
+| ll_text v r L : line_layout r L -> line_layout (TextElement v :: r) (v ++ L)
+| ll_placeable i b1 b2 r L :
+    all_blank b1 -> all_blank b2 -> line_layout r L ->
+    line_layout (PlaceableElement (Inline i) :: r) (123%N :: b1 ++ inline_text i ++ b2 ++ 125%N :: L).
+
+(* a value after "=": spaces and the line; or a line end, blank lines, an indentation and the line *)
+Inductive value_layout (els : list pattern_element) : bytes -> Prop :=
+| vl_inline k L : line_layout els L -> value_layout els (sp k ++ L)
+| vl_block k x c BL ind L :
+    first_byte_ok_for_block (Pattern els) = true ->
+    is_eol_bytes x -> blank_lines_of c BL -> 1 <= ind -> line_layout els L ->
+    value_layout els (sp k ++ x ++ BL ++ sp ind ++ L).
 
 (* an attribute: line end, 1 or more spaces, ".id", spaces, "=", value *)
 Inductive attr_layout : attribute -> bytes -> Prop :=
-| atl aid v x k k1 V :
-    is_eol_bytes x -> value_layout v V ->
-    attr_layout (Attribute aid (Pattern [TextElement v])) (x ++ sp (S k) ++ 46%N :: aid ++ sp k1 ++ 61%N :: V).
+| atl aid els x k k1 V :
+    is_eol_bytes x -> value_layout els V ->
+    attr_layout (Attribute aid (Pattern els)) (x ++ sp (S k) ++ 46%N :: aid ++ sp k1 ++ 61%N :: V).
 
 Inductive attrs_layout : list attribute -> bytes -> Prop :=
 | al_nil : attrs_layout [] []
@@ -90,15 +125,15 @@ Inductive entry_layout : entry -> bytes -> Prop :=
 | el_comment ls C : comment_layout [35%N] ls C -> entry_layout (CommentEntry (Comment ls)) C
 | el_gcomment ls C : comment_layout [35; 35]%N ls C -> entry_layout (GroupComment (Comment ls)) C
 | el_rcomment ls C : comment_layout [35; 35; 35]%N ls C -> entry_layout (ResourceComment (Comment ls)) C
-| el_message id v attrs k V A :
-    value_layout v V -> attrs_layout attrs A ->
-    entry_layout (Message id (Some (Pattern [TextElement v])) attrs None) (id ++ sp k ++ 61%N :: V ++ A)
+| el_message id els attrs k V A :
+    value_layout els V -> attrs_layout attrs A ->
+    entry_layout (Message id (Some (Pattern els)) attrs None) (id ++ sp k ++ 61%N :: V ++ A)
 | el_message_novalue id attrs k A :
     attrs <> [] -> attrs_layout attrs A ->
     entry_layout (Message id None attrs None) (id ++ sp k ++ 61%N :: A)
-| el_term id v attrs k V A :
-    value_layout v V -> attrs_layout attrs A ->
-    entry_layout (Term id (Pattern [TextElement v]) attrs None) (45%N :: id ++ sp k ++ 61%N :: V ++ A).
+| el_term id els attrs k V A :
+    value_layout els V -> attrs_layout attrs A ->
+    entry_layout (Term id (Pattern els) attrs None) (45%N :: id ++ sp k ++ 61%N :: V ++ A).
 
 (* what follows an entry: nothing, or a line end, blank lines and the remaining entries *)
 Inductive entries_layout : list entry -> bytes -> Prop :=
@@ -156,16 +191,11 @@ Proof.
     rewrite N.eqb_sym in Hb. rewrite Hb, (IH _ Hr). cbn [rev]. rewrite <- app_assoc. reflexivity.
 Qed.
 
-Lemma simple_text_spec v : simple_text v = true ->
-  exists b r, v = b :: r /\ N.eqb b 32 = false /\ is_cont b = false /\ text_line v /\
-              N.eqb (last v 0%N) 32 = false.
+Lemma inner_text_spec v : inner_text v = true ->
+  exists b r, v = b :: r /\ is_cont b = false /\ text_line v.
 Proof.
-  destruct v as [|b r]; [discriminate|]. cbn [simple_text]. intros H.
-  apply andb_prop in H as [H H4]. apply andb_prop in H as [H H3]. apply andb_prop in H as [H1 H2].
-  exists b, r. repeat split; try assumption.
-  - apply negb_true_iff, H1.
-  - apply negb_true_iff, H2.
-  - apply negb_true_iff, H4.
+  destruct v as [|b r]; [discriminate|]. cbn [inner_text]. intros H. apply andb_prop in H as [H1 H2].
+  exists b, r. split; [reflexivity|]. split; [apply negb_true_iff, H1 | exact H2].
 Qed.
 
 Lemma text_line_no_lf v : text_line v -> existsb (N.eqb 10) v = false.
@@ -176,19 +206,74 @@ Proof.
   cbn [existsb]. rewrite N.eqb_sym, H10. apply IH, Hr.
 Qed.
 
-Lemma render_pattern_inline_simple base v cs : text_line v ->
-  render_pattern_inline base (Pattern [TextElement v]) cs = (v, cs).
+Lemma render_text_line base continues v cs : text_line v -> render_text base continues v cs = (v, cs).
 Proof.
-  intros Hv. cbn [render_pattern_inline]. unfold rbind, render_text, lines_of.
+  intros Hv. unfold render_text, lines_of.
   rewrite (no_lf_lines_of v [] (text_line_no_lf v Hv)). cbn [rev app render_text_lines].
-  unfold rbind, rret. rewrite !app_nil_r. reflexivity.
+  unfold rbind, rret. rewrite app_nil_r. reflexivity.
 Qed.
 
-Lemma render_value_layout ind v cs : text_line v -> 1 <= ind ->
-  exists V cs', render_value ind (Pattern [TextElement v]) cs = (V, cs') /\ value_layout v V.
+Lemma render_inline_simple i cs : simple_inline i = true -> render_inline i cs = (inline_text i, cs).
+Proof.
+  destruct i as [s | v | id args | id att | id att args | id | e]; cbn [simple_inline]; intros Hi; try discriminate Hi;
+    cbn [render_inline inline_text].
+  - unfold rret, cat. cbn [concat app]. rewrite ?app_nil_r. reflexivity.
+  - reflexivity.
+  - reflexivity.
+  - destruct att; [discriminate|]. destruct args; [discriminate|].
+    rewrite rbind_rret. unfold rret. rewrite !app_nil_r. reflexivity.
+  - reflexivity.
+Qed.
+
+(* render_pattern_inline as a function of the element list *)
+Section RenderEls.
+Variable base : nat.
+Fixpoint render_els (l : list pattern_element) : R bytes :=
+  match l with
+  | [] => rret []
+  | TextElement v :: r =>
+      a <~ render_text base (match r with [] => false | _ => true end) v ;; b <~ render_els r ;; rret (a ++ b)
+  | PlaceableElement e :: r =>
+      b1 <~ blank_opt ;; s <~ render_expr base e ;; b2 <~ blank_opt ;;
+      rest <~ render_els r ;;
+      rret (cat [[123%N]; b1; s; b2; [125%N]; rest])
+  end.
+End RenderEls.
+
+Lemma render_pattern_inline_els base els : render_pattern_inline base (Pattern els) = render_els base els.
+Proof. reflexivity. Qed.
+
+Lemma blank_opt_spec cs : exists b cs', blank_opt cs = (b, cs') /\ all_blank b.
+Proof.
+  pose proof (all_blank_blank_opt cs) as H. destruct (blank_opt cs) as [b cs']. exists b, cs'. split; [reflexivity | exact H].
+Qed.
+
+Lemma render_els_layout base els : forall prev cs, simple_elements els prev = true ->
+  exists L cs', render_els base els cs = (L, cs') /\ line_layout els L.
+Proof.
+  induction els as [|el r IH]; intros prev cs Hs.
+  - exists [], cs. split; [reflexivity | constructor].
+  - destruct el as [v | [sel vs | i]]; cbn [simple_elements] in Hs; try discriminate Hs.
+    + apply andb_prop in Hs as [Hs Hr]. apply andb_prop in Hs as [_ Hv].
+      destruct (inner_text_spec v Hv) as (b & t & _ & _ & Hline).
+      cbn [render_els]. rewrite (rbind_eq _ _ _ _ _ (render_text_line base _ v cs Hline)).
+      destruct (IH true cs Hr) as [L [cs1 [E1 HL]]]. rewrite (rbind_eq _ _ _ _ _ E1).
+      exists (v ++ L), cs1. split; [reflexivity | constructor; exact HL].
+    + apply andb_prop in Hs as [Hi Hr].
+      cbn [render_els render_expr].
+      destruct (blank_opt_spec cs) as [b1 [cs1 [E1 Hb1]]]. rewrite (rbind_eq _ _ _ _ _ E1).
+      rewrite (rbind_eq _ _ _ _ _ (render_inline_simple i cs1 Hi)).
+      destruct (blank_opt_spec cs1) as [b2 [cs2 [E2 Hb2]]]. rewrite (rbind_eq _ _ _ _ _ E2).
+      destruct (IH false cs2 Hr) as [L [cs3 [E3 HL]]]. rewrite (rbind_eq _ _ _ _ _ E3).
+      eexists. exists cs3. split; [reflexivity|].
+      unfold cat. cbn [concat app]. rewrite app_nil_r. constructor; assumption.
+Qed.
+
+Lemma render_value_layout ind els cs : simple_elements els false = true -> 1 <= ind ->
+  exists V cs', render_value ind (Pattern els) cs = (V, cs') /\ value_layout els V.
 Proof.
   intros Hv Hind. unfold render_value. unfold rbind at 1. destruct (choose 3 cs) as [block cs1].
-  destruct (Nat.eqb block 2 && first_byte_ok_for_block (Pattern [TextElement v])) eqn:Eb.
+  destruct (Nat.eqb block 2 && first_byte_ok_for_block (Pattern els)) eqn:Eb.
   - apply andb_prop in Eb as [_ Hok].
     destruct (blank_inline_opt_spec cs1) as [k [cs2 E2]]. rewrite (rbind_eq _ _ _ _ _ E2).
     destruct (eol_spec' cs2) as [x [cs3 [E3 Hx]]]. rewrite (rbind_eq _ _ _ _ _ E3).
@@ -204,32 +289,39 @@ Proof.
       - exists 0, [], cs4. split; [reflexivity | constructor]. }
     destruct Hb as [c [BL [cs5 [E5 HBL]]]]. rewrite (rbind_eq _ _ _ _ _ E5).
     unfold rbind at 1. destruct (choose 3 cs5) as [extra cs6].
-    rewrite (rbind_eq _ _ _ _ _ (render_pattern_inline_simple _ v cs6 Hv)).
-    eexists. exists cs6. split; [reflexivity|].
+    rewrite render_pattern_inline_els.
+    destruct (render_els_layout (ind + extra) els false cs6 Hv) as [L [cs7 [E7 HL]]]. rewrite (rbind_eq _ _ _ _ _ E7).
+    eexists. exists cs7. split; [reflexivity|].
     unfold cat. cbn [concat]. rewrite app_nil_r.
-    apply (vl_block v k x c BL); try assumption. lia.
+    apply (vl_block els k x c BL); try assumption. lia.
   - destruct (blank_inline_opt_spec cs1) as [k [cs2 E2]]. rewrite (rbind_eq _ _ _ _ _ E2).
     unfold rbind at 1. destruct (choose 3 cs2) as [extra cs3].
-    rewrite (rbind_eq _ _ _ _ _ (render_pattern_inline_simple _ v cs3 Hv)).
-    eexists. exists cs3. split; [reflexivity | apply vl_inline].
+    rewrite render_pattern_inline_els.
+    destruct (render_els_layout (ind + extra) els false cs3 Hv) as [L [cs4 [E4 HL]]]. rewrite (rbind_eq _ _ _ _ _ E4).
+    eexists. exists cs4. split; [reflexivity | apply vl_inline, HL].
 Qed.
 
 Lemma simple_pattern_spec p : simple_pattern p = true ->
-  exists v, p = Pattern [TextElement v] /\ simple_text v = true.
+  exists els, p = Pattern els /\ simple_pattern (Pattern els) = true.
+Proof. destruct p as [els]. intros H. exists els. split; [reflexivity | exact H]. Qed.
+
+Lemma simple_pattern_parts els : simple_pattern (Pattern els) = true ->
+  els <> [] /\ simple_elements els false = true /\ first_ok els = true /\ last_ok els = true.
 Proof.
-  destruct p as [[|[v|e] [|y r]]]; try discriminate. intros H. exists v. split; [reflexivity | exact H].
+  cbn [simple_pattern]. intros H. apply andb_prop in H as [H H4]. apply andb_prop in H as [H H3].
+  apply andb_prop in H as [H1 H2]. repeat split; try assumption. destruct els; [discriminate H1 | discriminate].
 Qed.
+
+Lemma simple_pattern_elements els : simple_pattern (Pattern els) = true -> simple_elements els false = true.
+Proof. intros H. apply (simple_pattern_parts els H). Qed.
 
 Lemma simple_attribute_spec a : simple_attribute a = true ->
-  exists aid v, a = Attribute aid (Pattern [TextElement v]) /\ wf_identifier aid = true /\ simple_text v = true.
+  exists aid els, a = Attribute aid (Pattern els) /\ wf_identifier aid = true /\ simple_pattern (Pattern els) = true.
 Proof.
   destruct a as [aid p]. unfold simple_attribute. cbn [attr_id attr_value]. intros H.
-  apply andb_prop in H as [Hid Hp]. destruct (simple_pattern_spec p Hp) as [v [-> Hv]].
-  exists aid, v. auto.
+  apply andb_prop in H as [Hid Hp]. destruct (simple_pattern_spec p Hp) as [els [-> Hv]].
+  exists aid, els. auto.
 Qed.
-
-Lemma simple_text_line v : simple_text v = true -> text_line v.
-Proof. intros Hv. destruct (simple_text_spec v Hv) as (b & r & _ & _ & _ & Hline & _). exact Hline. Qed.
 
 Lemma render_attributes_layout attrs : forall cs, forallb simple_attribute attrs = true ->
   exists A cs', render_attributes attrs cs = (A, cs') /\ attrs_layout attrs A.
@@ -237,29 +329,29 @@ Proof.
   induction attrs as [|a r IH]; intros cs Ha.
   - exists [], cs. split; [reflexivity | constructor].
   - cbn [forallb] in Ha. apply andb_prop in Ha as [Ha Hr].
-    destruct (simple_attribute_spec a Ha) as (aid & v & -> & Hid & Hv).
+    destruct (simple_attribute_spec a Ha) as (aid & els & -> & Hid & Hv).
     cbn [render_attributes]. unfold render_attribute. cbn [attr_id attr_value].
     rewrite (rbind_eq _ _ cs
                (let '(x, cs1) := eol cs in let '(k, cs2) := choose 3 cs1 in
-                let '(b1, cs3) := blank_inline_opt cs2 in let '(V, cs4) := render_value 8 (Pattern [TextElement v]) cs3 in
+                let '(b1, cs3) := blank_inline_opt cs2 in let '(V, cs4) := render_value 8 (Pattern els) cs3 in
                 cat [x; sp (S k); [46%N]; aid; b1; [61%N]; V])
                (let '(x, cs1) := eol cs in let '(k, cs2) := choose 3 cs1 in
-                let '(b1, cs3) := blank_inline_opt cs2 in let '(V, cs4) := render_value 8 (Pattern [TextElement v]) cs3 in
+                let '(b1, cs3) := blank_inline_opt cs2 in let '(V, cs4) := render_value 8 (Pattern els) cs3 in
                 cs4)).
     2:{ unfold rbind. destruct (eol cs) as [x cs1]. destruct (choose 3 cs1) as [k cs2].
-        destruct (blank_inline_opt cs2) as [b1 cs3]. destruct (render_value 8 (Pattern [TextElement v]) cs3) as [V cs4].
+        destruct (blank_inline_opt cs2) as [b1 cs3]. destruct (render_value 8 (Pattern els) cs3) as [V cs4].
         reflexivity. }
     destruct (eol_spec' cs) as [x [cs1 [E1 Hx]]]. rewrite E1.
     destruct (choose 3 cs1) as [k cs2].
     destruct (blank_inline_opt_spec cs2) as [k1 [cs3 E3]]. rewrite E3.
-    destruct (render_value_layout 8 v cs3 (simple_text_line v Hv) ltac:(lia)) as [V [cs4 [E4 HV]]]. rewrite E4.
+    destruct (render_value_layout 8 els cs3 (simple_pattern_elements els Hv) ltac:(lia)) as [V [cs4 [E4 HV]]]. rewrite E4.
     destruct (IH cs4 Hr) as [A [cs5 [E5 HA]]]. rewrite (rbind_eq _ _ _ _ _ E5).
     eexists. exists cs5. split; [reflexivity|].
     constructor; [|exact HA].
     unfold cat. cbn [concat app]. rewrite app_nil_r.
     replace (x ++ sp (S k) ++ 46%N :: aid ++ sp k1 ++ 61%N :: V)
       with (x ++ sp (S k) ++ 46%N :: aid ++ sp k1 ++ 61%N :: V) by reflexivity.
-    apply (atl aid v x k k1 V Hx HV).
+    apply (atl aid els x k k1 V Hx HV).
 Qed.
 
 Lemma render_comment_lines_layout P ls : ls <> [] -> forall cs,
@@ -283,10 +375,10 @@ Lemma render_entry_layout e cs : simple_entry e = true ->
 Proof.
   intros He. destruct e as [id [p|] attrs [|]|id p attrs [|]|[ls]|[ls]|[ls]|]; try discriminate.
   - cbn [simple_entry] in He. apply andb_prop in He as [He Hattrs]. apply andb_prop in He as [_ Hp].
-    destruct (simple_pattern_spec p Hp) as [v [-> Hv]].
+    destruct (simple_pattern_spec p Hp) as [els [-> Hv]].
     cbn [render_entry render_opt_comment]. rewrite rbind_rret.
     destruct (blank_inline_opt_spec cs) as [k [cs1 E1]]. rewrite (rbind_eq _ _ _ _ _ E1).
-    destruct (render_value_layout 4 v cs1 (simple_text_line v Hv) ltac:(lia)) as [V [cs2 [E2 HV]]].
+    destruct (render_value_layout 4 els cs1 (simple_pattern_elements els Hv) ltac:(lia)) as [V [cs2 [E2 HV]]].
     rewrite (rbind_eq _ _ _ _ _ E2).
     destruct (render_attributes_layout attrs cs2 Hattrs) as [A [cs3 [E3 HA]]]. rewrite (rbind_eq _ _ _ _ _ E3).
     eexists. exists cs3. split; [reflexivity|].
@@ -299,10 +391,10 @@ Proof.
     unfold cat. cbn [concat app]. rewrite !app_nil_r. apply el_message_novalue; [|exact HA].
     destruct attrs; [discriminate Hne | discriminate].
   - cbn [simple_entry] in He. apply andb_prop in He as [He Hattrs]. apply andb_prop in He as [_ Hp].
-    destruct (simple_pattern_spec p Hp) as [v [-> Hv]].
+    destruct (simple_pattern_spec p Hp) as [els [-> Hv]].
     cbn [render_entry render_opt_comment]. rewrite rbind_rret.
     destruct (blank_inline_opt_spec cs) as [k [cs1 E1]]. rewrite (rbind_eq _ _ _ _ _ E1).
-    destruct (render_value_layout 4 v cs1 (simple_text_line v Hv) ltac:(lia)) as [V [cs2 [E2 HV]]].
+    destruct (render_value_layout 4 els cs1 (simple_pattern_elements els Hv) ltac:(lia)) as [V [cs2 [E2 HV]]].
     rewrite (rbind_eq _ _ _ _ _ E2).
     destruct (render_attributes_layout attrs cs2 Hattrs) as [A [cs3 [E3 HA]]]. rewrite (rbind_eq _ _ _ _ _ E3).
     eexists. exists cs3. split; [reflexivity|].
@@ -365,23 +457,6 @@ Qed.
 
 (* ---------------------------------------------------------------------------------------------- *)
 (* 3. The parser on a layout                                                                        *)
-
-Lemma bind_get_ptr {B} (f : nat -> M B) p : bind get_ptr f p = f p p.
-Proof. reflexivity. Qed.
-Lemma bind_ret {A B} (a : A) (f : A -> M B) p : bind (ret a) f p = f a p.
-Proof. reflexivity. Qed.
-Lemma bind_advance {B} k (f : unit -> M B) p : bind (advance k) f p = f tt (k + p).
-Proof. reflexivity. Qed.
-Lemma bind_set_ptr {B} q (f : unit -> M B) p : bind (set_ptr q) f p = f tt q.
-Proof. reflexivity. Qed.
-Lemma bind_current_byte {B} bs (f : option N -> M B) p : bind (current_byte bs) f p = f (byte_at bs p) p.
-Proof. reflexivity. Qed.
-
-Lemma bind_assoc {A B C} (m : M A) (f : A -> M B) (g : B -> M C) p :
-  bind (bind m f) g p = bind m (fun a => bind (f a) g) p.
-Proof. unfold bind. destruct (m p); reflexivity. Qed.
-
-Ltac step H := rewrite (bind_ok _ _ _ _ _ H).
 
 Section OnLayout.
 Variable bs : bytes.
@@ -561,75 +636,9 @@ Proof. intros H. inversion H. auto. Qed.
 Definition role_after (term : termination) : position :=
   match term with TLineFeed | TCrlf => LineStart | TPlaceableStart | TEof => Continuation end.
 
-Lemma simple_text_nonblank v : simple_text v = true -> is_nonblank v = true.
-Proof.
-  intros H. destruct (simple_text_spec v H) as (b & r & -> & H32 & _). cbn [is_nonblank existsb].
-  unfold c_sp. rewrite H32. reflexivity.
-Qed.
+(* ---- text of a line ---- *)
+Definition ends_nonspace (v : bytes) : Prop := N.eqb (last v 0%N) 32 = false.
 
-(* first iteration of the pattern loop on an inline value: the text stands right at ptr *)
-Lemma first_line_inline v T term eo po R p n :
-  simple_text v = true -> at_ bs p (v ++ T) -> line_tail T term eo po R ->
-  pattern_loop bs (S n) (PState [] 0 None None InitialLineStart) p =
-  pattern_loop bs n (PState [PHText p (eo + (length v + p)) 0 InitialLineStart] 1 (Some 0) None (role_after term))
-               (po + (length v + p)).
-Proof.
-  intros Hv H HT. destruct (simple_text_spec v Hv) as (b & r & Ev & H32 & Hc & Hline & Hlast).
-  cbn [pattern_loop]. rewrite bind_get_ptr.
-  assert (Hb : at_ bs p (b :: r ++ T)) by (rewrite Ev in H; exact H).
-  rewrite (at_ltb _ _ _ _ Hb). cbn [negb].
-  assert (H123 : N.eqb b 123 = false).
-  { unfold text_line in Hline. rewrite Ev in Hline. cbn [forallb] in Hline. apply andb_prop in Hline as [Hb' _].
-    apply wf_text_byte_spec in Hb'. tauto. }
-  step (take_byte_if_no bs p 123 _ Hb H123). rewrite bind_get_ptr.
-  cbn [role is_line_start]. rewrite bind_ret.
-  destruct (get_text_slice_line p v T term eo po R H Hline HT) as [Hts _]. step Hts.
-  rewrite (simple_text_nonblank v Hv).
-  cbn [is_line_start andb orb negb elements n_elements last_non_blank common_indent role].
-  replace (Nat.eqb p (eo + (length v + p))) with false
-    by (symmetry; apply Nat.eqb_neq; rewrite Ev; cbn [length]; lia).
-  cbn [negb elements n_elements last_non_blank common_indent role].
-  destruct term; reflexivity.
-Qed.
-
-(* ... on a block value: the first line is indented by ind >= 1 spaces and starts with a continuation byte *)
-Lemma first_line_block v ind T term eo po R p n :
-  simple_text v = true -> first_byte_ok_for_block (Pattern [TextElement v]) = true -> 1 <= ind ->
-  at_ bs p (sp ind ++ v ++ T) -> line_tail T term eo po R ->
-  pattern_loop bs (S n) (PState [] 0 None None LineStart) p =
-  pattern_loop bs n (PState [PHText p (eo + (length v + (ind + p))) ind LineStart] 1 (Some 0) (Some ind) (role_after term))
-               (po + (length v + (ind + p))).
-Proof.
-  intros Hv Hok Hind H HT. destruct (simple_text_spec v Hv) as (b & r & Ev & H32 & Hc & Hline & Hlast).
-  cbn [pattern_loop]. rewrite bind_get_ptr.
-  destruct ind as [|ind]; [lia|].
-  assert (H0 : at_ bs p (32%N :: sp ind ++ v ++ T)) by exact H.
-  rewrite (at_ltb _ _ _ _ H0). cbn [negb].
-  step (take_byte_if_no bs p 123 _ H0 eq_refl). rewrite bind_get_ptr.
-  cbn [role is_line_start].
-  assert (Hsp : skip_blank_inline bs p = Ok (S ind) (S ind + p)).
-  { eapply skip_blank_inline_sp; [exact H|]. rewrite Ev. exact H32. }
-  rewrite bind_assoc. step Hsp. rewrite bind_assoc, bind_current_byte.
-  pose proof (at_app _ _ _ _ H) as H1. rewrite sp_length in H1.
-  assert (Hb : at_ bs (S ind + p) (b :: r ++ T)) by (rewrite Ev in H1; exact H1).
-  rewrite (at_byte _ _ _ _ Hb). cbn [Nat.eqb].
-  assert (Hcont : is_byte_pattern_continuation b = true).
-  { unfold text_line in Hline. rewrite Ev in Hline. cbn [forallb] in Hline. apply andb_prop in Hline as [Hb' _].
-    apply wf_text_byte_spec in Hb' as (_ & H125 & _ & _).
-    rewrite Ev in Hok. cbn [first_byte_ok_for_block pattern_elements] in Hok.
-    apply negb_true_iff in Hok. apply orb_false_elim in Hok as [Hok H42]. apply orb_false_elim in Hok as [H46 H91].
-    unfold is_byte_pattern_continuation. rewrite H46, H125, H91, H42. reflexivity. }
-  rewrite Hcont. cbn [negb]. rewrite bind_ret.
-  destruct (get_text_slice_line (S ind + p) v T term eo po R H1 Hline HT) as [Hts _]. step Hts.
-  rewrite (simple_text_nonblank v Hv).
-  cbn [is_line_start andb orb negb elements n_elements last_non_blank common_indent role].
-  replace (Nat.eqb (S ind + p) (eo + (length v + (S ind + p)))) with false
-    by (symmetry; apply Nat.eqb_neq; rewrite Ev; cbn [length]; lia).
-  cbn [negb elements n_elements last_non_blank common_indent role].
-  destruct term; reflexivity.
-Qed.
-
-(* ---- trimming ---- *)
 Lemma rev_last (v : bytes) : v <> [] -> rev v = last v 0%N :: rev (removelast v).
 Proof.
   intros H. rewrite (app_removelast_last 0%N H) at 1. rewrite rev_app_distr. reflexivity.
@@ -641,30 +650,200 @@ Proof.
   right. apply IH. discriminate.
 Qed.
 
-Lemma simple_text_last v : simple_text v = true -> matches_fluent_ws (last v 0%N) = false.
+Lemma text_last_ws v : text_line v -> v <> [] -> ends_nonspace v -> matches_fluent_ws (last v 0%N) = false.
 Proof.
-  intros H. destruct (simple_text_spec v H) as (b & r & Ev & _ & _ & Hline & Hlast).
-  assert (Hin : In (last v 0%N) v) by (apply last_in; rewrite Ev; discriminate).
+  intros Hline Hne Hlast. pose proof (last_in v 0%N Hne) as Hin.
   unfold text_line in Hline. rewrite forallb_forall in Hline. apply Hline in Hin.
   apply wf_text_byte_spec in Hin as (_ & _ & H13 & H10).
-  unfold matches_fluent_ws, c_sp, c_cr, c_lf. rewrite Hlast, H13, H10. reflexivity.
+  unfold matches_fluent_ws, c_sp, c_cr, c_lf. unfold ends_nonspace in Hlast. rewrite Hlast, H13, H10. reflexivity.
 Qed.
 
-Lemma trim_end_simple v : simple_text v = true -> trim_end v = v.
+Lemma trim_end_text v : text_line v -> v <> [] -> ends_nonspace v -> trim_end v = v.
 Proof.
-  intros H. unfold trim_end.
-  assert (Hne : v <> []) by (destruct (simple_text_spec v H) as (b & r & -> & _); discriminate).
-  rewrite (rev_last v Hne). cbn [scan_while]. rewrite (simple_text_last v H). cbn [skipn].
+  intros Hline Hne Hlast. unfold trim_end.
+  rewrite (rev_last v Hne). cbn [scan_while]. rewrite (text_last_ws v Hline Hne Hlast). cbn [skipn].
   rewrite <- (rev_last v Hne). apply rev_involutive.
 Qed.
 
-Lemma trim_end_simple_lf v : simple_text v = true -> trim_end (v ++ [10%N]) = v.
+Lemma trim_end_text_lf v : text_line v -> v <> [] -> ends_nonspace v -> trim_end (v ++ [10%N]) = v.
 Proof.
-  intros H. unfold trim_end. rewrite rev_app_distr. cbn [rev app scan_while].
+  intros Hline Hne Hlast. unfold trim_end. rewrite rev_app_distr. cbn [rev app scan_while].
   change (matches_fluent_ws 10) with true. cbv iota.
-  assert (Hne : v <> []) by (destruct (simple_text_spec v H) as (b & r & -> & _); discriminate).
-  rewrite (rev_last v Hne). cbn [scan_while]. rewrite (simple_text_last v H). cbn [skipn].
+  rewrite (rev_last v Hne). cbn [scan_while]. rewrite (text_last_ws v Hline Hne Hlast). cbn [skipn].
   rewrite <- (rev_last v Hne). apply rev_involutive.
+Qed.
+
+Lemma nonblank_last v : v <> [] -> ends_nonspace v -> is_nonblank v = true.
+Proof.
+  intros Hne Hlast. unfold is_nonblank. apply existsb_exists. exists (last v 0%N).
+  split; [apply last_in, Hne|]. unfold c_sp. unfold ends_nonspace in Hlast. rewrite Hlast. reflexivity.
+Qed.
+
+(* ---- finishing the placeholders ---- *)
+Definition fin (lnbF : nat) (ci : option nat) (i : nat) (ph : placeholder) (o : option pattern_element) : Prop :=
+  forall q, finish_element bs lnbF ci i ph q = Ok o q.
+
+Inductive fin_all (lnbF : nat) (ci : option nat) : nat -> list placeholder -> list pattern_element -> Prop :=
+| fa_nil i : fin_all lnbF ci i [] []
+| fa_some i ph el phs els :
+    fin lnbF ci i ph (Some el) -> fin_all lnbF ci (S i) phs els -> fin_all lnbF ci i (ph :: phs) (el :: els)
+| fa_none i ph phs els :
+    fin lnbF ci i ph None -> fin_all lnbF ci (S i) phs els -> fin_all lnbF ci i (ph :: phs) els.
+
+Lemma finish_elements_all lnbF ci i phs els :
+  fin_all lnbF ci i phs els -> forall q, finish_elements bs lnbF ci i phs q = Ok els q.
+Proof.
+  induction 1 as [i | i ph el phs els Hf Hr IH | i ph phs els Hf Hr IH]; intros q; cbn [finish_elements].
+  - reflexivity.
+  - step (Hf q). step (IH q). reflexivity.
+  - step (Hf q). step (IH q). reflexivity.
+Qed.
+
+Lemma fin_placeable lnbF ci i e : fin lnbF ci i (PHPlaceable e) (Some (PlaceableElement e)).
+Proof. intros q. reflexivity. Qed.
+
+Lemma fin_text lnbF ci i start end_ ind role q0 v :
+  (if is_line_start role
+   then match ci with None => start + ind | Some c0 => start + Nat.min ind c0 end
+   else start) = q0 ->
+  q0 <> end_ -> slice bs q0 end_ = Done v ->
+  fin lnbF ci i (PHText start end_ ind role) (Some (TextElement (if Nat.eqb lnbF i then trim_end v else v))).
+Proof.
+  intros Hq Hne Hs q. cbn [finish_element]. rewrite Hq.
+  replace (Nat.eqb q0 end_) with false by (symmetry; apply Nat.eqb_neq, Hne).
+  unfold source_slice. rewrite Hs. reflexivity.
+Qed.
+
+Lemma fin_text_none lnbF ci i start end_ ind role :
+  (if is_line_start role
+   then match ci with None => start + ind | Some c0 => start + Nat.min ind c0 end
+   else start) = end_ ->
+  fin lnbF ci i (PHText start end_ ind role) None.
+Proof. intros Hq q. cbn [finish_element]. rewrite Hq, Nat.eqb_refl. reflexivity. Qed.
+
+(* ---- steps of the pattern loop ---- *)
+(* a placeable *)
+Lemma step_placeable i b1 b2 rest phs ne lnb ci rl p n :
+  is_line_start rl = false -> simple_inline i = true -> all_blank b1 -> all_blank b2 ->
+  at_ bs p (123%N :: b1 ++ inline_text i ++ b2 ++ 125%N :: rest) -> length (inline_text i) + 4 <= n ->
+  pattern_loop bs (S n) (PState phs ne lnb ci rl) p =
+  pattern_loop bs n (PState (PHPlaceable (Inline i) :: phs) (S ne) (Some ne) ci Continuation)
+               (length (123%N :: b1 ++ inline_text i ++ b2 ++ [125%N]) + p).
+Proof.
+  intros Hrole Hi Hb1 Hb2 H Hn. cbn [pattern_loop]. rewrite bind_get_ptr.
+  rewrite (at_ltb _ _ _ _ H). cbn [negb].
+  step (take_byte_if_yes bs p 123 _ H). cbv iota. cbn [role elements n_elements common_indent]. rewrite Hrole.
+  step (get_placeable_simple bs i b1 b2 rest (S p) n Hi Hb1 Hb2 (at_cons _ _ _ _ H) Hn).
+  f_equal. cbn [length]. rewrite !app_length. cbn [length]. lia.
+Qed.
+
+(* a text that does not start the line of a block value *)
+Lemma step_text v X term eo po nb phs ne lnb ci rl p n :
+  is_line_start rl = false -> inner_text v = true -> at_ bs p (v ++ X) ->
+  get_text_slice bs p = Ok (p, eo + (length v + p), nb, term) (po + (length v + p)) ->
+  pattern_loop bs (S n) (PState phs ne lnb ci rl) p =
+  pattern_loop bs n (PState (PHText p (eo + (length v + p)) 0 rl :: phs) (S ne)
+                            (if nb then Some ne else lnb) ci (role_after term))
+               (po + (length v + p)).
+Proof.
+  intros Hrole Hv H Hts. destruct (inner_text_spec v Hv) as (b & r & Ev & Hc & Hline).
+  cbn [pattern_loop]. rewrite bind_get_ptr.
+  assert (Hb : at_ bs p (b :: r ++ X)) by (rewrite Ev in H; exact H).
+  rewrite (at_ltb _ _ _ _ Hb). cbn [negb].
+  assert (H123 : N.eqb b 123 = false).
+  { unfold text_line in Hline. rewrite Ev in Hline. cbn [forallb] in Hline. apply andb_prop in Hline as [Hb' _].
+    apply wf_text_byte_spec in Hb'. tauto. }
+  step (take_byte_if_no bs p 123 _ Hb H123). rewrite bind_get_ptr.
+  cbn [role]. rewrite Hrole. rewrite bind_ret. step Hts.
+  cbn [is_line_start andb orb negb elements n_elements last_non_blank common_indent role].
+  replace (Nat.eqb p (eo + (length v + p))) with false
+    by (symmetry; apply Nat.eqb_neq; rewrite Ev; cbn [length]; lia).
+  cbn [negb elements n_elements last_non_blank common_indent role].
+  rewrite ?Hrole. cbn [negb andb orb]. cbn [elements n_elements last_non_blank common_indent role].
+  destruct term; reflexivity.
+Qed.
+
+(* the first text of a block value: indented by ind >= 1 spaces, first byte not a space and a continuation byte *)
+Lemma step_block_text v b r ind X term eo po p n :
+  v = b :: r -> text_line v -> N.eqb b 32 = false -> is_byte_pattern_continuation b = true ->
+  1 <= ind -> at_ bs p (sp ind ++ v ++ X) ->
+  get_text_slice bs (ind + p) = Ok (ind + p, eo + (length v + (ind + p)), true, term) (po + (length v + (ind + p))) ->
+  pattern_loop bs (S n) (PState [] 0 None None LineStart) p =
+  pattern_loop bs n (PState [PHText p (eo + (length v + (ind + p))) ind LineStart] 1 (Some 0) (Some ind) (role_after term))
+               (po + (length v + (ind + p))).
+Proof.
+  intros Ev Hline H32 Hcont Hind H Hts.
+  cbn [pattern_loop]. rewrite bind_get_ptr.
+  destruct ind as [|ind]; [lia|].
+  assert (H0 : at_ bs p (32%N :: sp ind ++ v ++ X)) by exact H.
+  rewrite (at_ltb _ _ _ _ H0). cbn [negb].
+  step (take_byte_if_no bs p 123 _ H0 eq_refl). rewrite bind_get_ptr.
+  cbn [role is_line_start].
+  assert (Hsp : skip_blank_inline bs p = Ok (S ind) (S ind + p)).
+  { eapply skip_blank_inline_sp; [exact H|]. rewrite Ev. exact H32. }
+  rewrite bind_assoc. step Hsp. rewrite bind_assoc, bind_current_byte.
+  pose proof (at_app _ _ _ _ H) as H1. rewrite sp_length in H1.
+  assert (Hb : at_ bs (S ind + p) (b :: r ++ X)) by (rewrite Ev in H1; exact H1).
+  rewrite (at_byte _ _ _ _ Hb). cbn [Nat.eqb].
+  rewrite Hcont. cbn [negb]. rewrite bind_ret.
+  step Hts.
+  cbn [is_line_start andb orb negb elements n_elements last_non_blank common_indent role].
+  replace (Nat.eqb (S ind + p) (eo + (length v + (S ind + p)))) with false
+    by (symmetry; apply Nat.eqb_neq; rewrite Ev; cbn [length]; lia).
+  cbn [negb elements n_elements last_non_blank common_indent role].
+  destruct term; reflexivity.
+Qed.
+
+(* a block value that starts with a placeable: the indentation becomes a placeholder (that finishes to nothing) *)
+Lemma step_block_indent ind rest p n :
+  1 <= ind -> at_ bs p (sp ind ++ 123%N :: rest) ->
+  pattern_loop bs (S n) (PState [] 0 None None LineStart) p =
+  pattern_loop bs n (PState [PHText p (ind + p) ind LineStart] 1 None (Some ind) Continuation) (ind + p).
+Proof.
+  intros Hind H. cbn [pattern_loop]. rewrite bind_get_ptr.
+  destruct ind as [|ind]; [lia|].
+  assert (H0 : at_ bs p (32%N :: sp ind ++ 123%N :: rest)) by exact H.
+  rewrite (at_ltb _ _ _ _ H0). cbn [negb].
+  step (take_byte_if_no bs p 123 _ H0 eq_refl). rewrite bind_get_ptr.
+  cbn [role is_line_start].
+  assert (Hsp : skip_blank_inline bs p = Ok (S ind) (S ind + p)) by (eapply skip_blank_inline_sp; [exact H | reflexivity]).
+  rewrite bind_assoc. step Hsp. rewrite bind_assoc, bind_current_byte.
+  pose proof (at_app _ _ _ _ H) as H1. rewrite sp_length in H1.
+  rewrite (at_byte _ _ _ _ H1). cbn [Nat.eqb].
+  change (is_byte_pattern_continuation 123) with true. cbn [negb]. rewrite bind_ret.
+  step (get_text_slice_placeable bs (S ind + p) [] rest H1 eq_refl).
+  cbn [length is_nonblank existsb Nat.add is_line_start andb orb negb elements n_elements last_non_blank common_indent role].
+  rewrite Nat.eqb_refl. cbn [negb]. reflexivity.
+Qed.
+
+(* a line end right after a placeable *)
+Lemma step_eol_lf rest phs ne lnb ci rl p n :
+  is_line_start rl = false -> at_ bs p (10%N :: rest) ->
+  pattern_loop bs (S n) (PState phs ne lnb ci rl) p =
+  pattern_loop bs n (PState (PHText p (S p) 0 rl :: phs) (S ne) lnb ci LineStart) (S p).
+Proof.
+  intros Hrole H. cbn [pattern_loop]. rewrite bind_get_ptr.
+  rewrite (at_ltb _ _ _ _ H). cbn [negb].
+  step (take_byte_if_no bs p 123 _ H eq_refl). rewrite bind_get_ptr.
+  cbn [role]. rewrite Hrole. rewrite bind_ret.
+  step (get_text_slice_lf bs p [] rest H eq_refl).
+  cbn [length is_nonblank existsb Nat.add andb orb negb elements n_elements last_non_blank common_indent role].
+  replace (Nat.eqb p (S p)) with false by (symmetry; apply Nat.eqb_neq; lia).
+  rewrite ?Hrole. cbn [negb andb orb elements n_elements last_non_blank common_indent role]. reflexivity.
+Qed.
+
+Lemma step_eol_crlf rest phs ne lnb ci rl p n :
+  is_line_start rl = false -> at_ bs p (13%N :: 10%N :: rest) ->
+  pattern_loop bs (S n) (PState phs ne lnb ci rl) p =
+  pattern_loop bs n (PState phs ne lnb ci LineStart) (S p).
+Proof.
+  intros Hrole H. cbn [pattern_loop]. rewrite bind_get_ptr.
+  rewrite (at_ltb _ _ _ _ H). cbn [negb].
+  step (take_byte_if_no bs p 123 _ H eq_refl). rewrite bind_get_ptr.
+  cbn [role]. rewrite Hrole. rewrite bind_ret.
+  step (get_text_slice_crlf bs p [] rest H eq_refl).
+  cbn [length is_nonblank existsb Nat.add andb orb negb elements n_elements last_non_blank common_indent role].
+  rewrite Nat.eqb_refl. rewrite ?Hrole. cbn [negb andb orb elements n_elements last_non_blank common_indent role]. reflexivity.
 Qed.
 
 (* ---- what follows a value ---- *)
@@ -683,81 +862,6 @@ Proof.
   replace (length x + length BL + p) with (length BL + (length x + p)) by lia. exact H.
 Qed.
 
-(* the tail of the pattern loop after the first line, and finish_pattern *)
-Lemma value_rest v T used c nx q slice_start ind role0 ci n :
-  simple_text v = true -> after_value T used c nx -> at_ bs q (v ++ T) ->
-  (if is_line_start role0
-   then match ci with None => slice_start + ind | Some c0 => slice_start + Nat.min ind c0 end
-   else slice_start) = q ->
-  2 * c + 3 <= n ->
-  forall term eo po R, line_tail T term eo po R ->
-  (st <- pattern_loop bs n (PState [PHText slice_start (eo + (length v + q)) ind role0] 1 (Some 0) ci (role_after term)) ;;
-   finish_pattern bs st) (po + (length v + q)) =
-  Ok (Some (Pattern [TextElement v])) (used + (length v + q)).
-Proof.
-  intros Hv HT H Hq Hn term eo po R Hlt.
-  destruct (simple_text_spec v Hv) as (b & r & Ev & H32 & Hc & Hline & Hlast).
-  assert (Hsc : starts_char (v ++ T) = true) by (rewrite Ev; cbn; rewrite Hc; reflexivity).
-  assert (Hlen : 1 <= length v) by (rewrite Ev; cbn [length]; lia).
-  clear Ev H32 Hc Hlast b r.
-  (* the loop *)
-  assert (Hloop : exists extra ne' role',
-             pattern_loop bs n (PState [PHText slice_start (eo + (length v + q)) ind role0] 1 (Some 0) ci (role_after term))
-                          (po + (length v + q)) =
-             Ok (PState (extra ++ [PHText slice_start (eo + (length v + q)) ind role0]) ne' (Some 0) ci role')
-                (used + (length v + q))).
-  { destruct HT as [|x c BL next Hx HBL Hstop].
-    - destruct (line_tail_nil _ _ _ _ Hlt) as (-> & -> & -> & ->). destruct n as [|n]; [lia|].
-      exists [], 1, Continuation. cbn [pattern_loop role_after]. rewrite bind_get_ptr.
-      rewrite app_nil_r in H. replace v with (v ++ []) in H by apply app_nil_r. apply at_app in H.
-      cbn [Nat.add]. rewrite (at_ltb_nil _ _ H). reflexivity.
-    - destruct Hx as [-> | ->];
-        [destruct (line_tail_lf _ _ _ _ _ Hlt) as (-> & -> & -> & ->)
-        |destruct (line_tail_crlf _ _ _ _ _ Hlt) as (-> & -> & -> & ->)]; cbn [role_after].
-      + assert (H1 : at_ bs (1 + (length v + q)) (BL ++ next)).
-        { apply at_app in H. apply at_cons in H. exact H. }
-        destruct (blank_region c BL HBL next [PHText slice_start (1 + (length v + q)) ind role0] 1 (Some 0) ci
-                               _ n Hstop H1 ltac:(lia)) as [extra [ne' E]].
-        exists extra, ne', LineStart. rewrite E. f_equal. cbn [length lf]. lia.
-      + assert (H1 : at_ bs (1 + (length v + q)) ((sp 0 ++ lf ++ BL) ++ next)).
-        { apply at_app in H. apply at_cons in H. exact H. }
-        destruct (blank_region (S c) (sp 0 ++ lf ++ BL) (bl_cons 0 lf c BL (or_introl eq_refl) HBL)
-                               next [PHText slice_start (0 + (length v + q)) ind role0] 1 (Some 0) ci
-                               _ n Hstop H1 ltac:(lia)) as [extra [ne' E]].
-        exists extra, ne', LineStart. rewrite E. f_equal. cbn [length crlf lf sp repeat app]. lia. }
-  destruct Hloop as [extra [ne' [role' E]]]. step E.
-  (* finish_pattern *)
-  unfold finish_pattern. cbn [last_non_blank elements common_indent].
-  rewrite rev_app_distr. cbn [rev app firstn].
-  cbn [finish_elements finish_element]. rewrite Hq.
-  replace (Nat.eqb q (eo + (length v + q))) with false
-    by (symmetry; apply Nat.eqb_neq; lia).
-  (* the slice *)
-  assert (Hslice : exists v', slice bs q (eo + (length v + q)) = Done v' /\ trim_end v' = v).
-  { destruct HT as [|x c BL next Hx HBL Hstop].
-    - destruct (line_tail_nil _ _ _ _ Hlt) as (-> & -> & -> & ->). exists v. split; [|apply trim_end_simple, Hv].
-      cbn [Nat.add]. rewrite app_nil_r in H, Hsc.
-      replace v with (v ++ []) in H, Hsc by apply app_nil_r.
-      apply (at_slice bs q v [] H Hsc eq_refl).
-    - destruct Hx as [-> | ->];
-        [destruct (line_tail_lf _ _ _ _ _ Hlt) as (-> & -> & -> & ->)
-        |destruct (line_tail_crlf _ _ _ _ _ Hlt) as (-> & -> & -> & ->)].
-      + exists (v ++ [10%N]). split; [|apply trim_end_simple_lf, Hv].
-        replace (1 + (length v + q)) with (length (v ++ [10%N]) + q) by (rewrite app_length; cbn [length]; lia).
-        apply (at_slice bs q (v ++ [10%N]) (BL ++ next)).
-        * rewrite <- app_assoc. exact H.
-        * rewrite <- app_assoc. exact Hsc.
-        * apply (blank_lines_starts_char c BL next HBL), region_stop_starts_char, Hstop.
-      + exists v. split; [|apply trim_end_simple, Hv].
-        cbn [Nat.add]. apply (at_slice bs q v _ H Hsc). reflexivity. }
-  destruct Hslice as [v' [Es Et]].
-  unfold source_slice. rewrite Es. unfold lift_outcome.
-  unfold bind, ret. cbn [Nat.eqb]. rewrite Et. reflexivity.
-Qed.
-
-Lemma bind_congr {A B} (m m' : M A) (f : A -> M B) p p' : m p = m' p' -> bind m f p = bind m' f p'.
-Proof. intros H. unfold bind. rewrite H. reflexivity. Qed.
-
 Lemma after_value_line_tail T used c nx : after_value T used c nx -> exists term eo po R, line_tail T term eo po R.
 Proof.
   intros [|x c' BL next [-> | ->] HBL Hstop].
@@ -766,13 +870,237 @@ Proof.
   - do 4 eexists. cbn [crlf app]. constructor.
 Qed.
 
-Lemma simple_text_head v T : simple_text v = true ->
-  head_not is_space (v ++ T) /\ no_eol_head (v ++ T) /\ no_blank_line_head (v ++ T).
+(* the loop after the last byte of the line's last text (ptr: po bytes into T, rl as the slice left it) *)
+Lemma after_line T used c nx term eo po R phs ne lnb ci q n :
+  after_value T used c nx -> line_tail T term eo po R -> at_ bs q T -> 2 * c + 3 <= n ->
+  exists extra ne' role',
+    pattern_loop bs n (PState phs ne lnb ci (role_after term)) (po + q) =
+    Ok (PState (extra ++ phs) ne' lnb ci role') (used + q).
 Proof.
-  intros Hv. destruct (simple_text_spec v Hv) as (b & r & -> & H32 & Hc & Hline & Hlast).
-  unfold text_line in Hline. cbn [forallb] in Hline. apply andb_prop in Hline as [Hb _].
-  apply wf_text_byte_spec in Hb as (_ & _ & H13 & H10). cbn [app].
-  split; [exact H32 | split; [apply no_eol_head_byte | apply no_blank_line_head_byte]; assumption].
+  intros HT Hlt H Hn. destruct HT as [|x c BL next Hx HBL Hstop].
+  - destruct (line_tail_nil _ _ _ _ Hlt) as (-> & -> & -> & ->). destruct n as [|n]; [lia|].
+    exists [], ne, Continuation. cbn [pattern_loop role_after]. rewrite bind_get_ptr.
+    cbn [Nat.add]. rewrite (at_ltb_nil _ _ H). reflexivity.
+  - destruct Hx as [-> | ->];
+      [destruct (line_tail_lf _ _ _ _ _ Hlt) as (-> & -> & -> & ->)
+      |destruct (line_tail_crlf _ _ _ _ _ Hlt) as (-> & -> & -> & ->)]; cbn [role_after].
+    + assert (H1 : at_ bs (1 + q) (BL ++ next)) by (apply at_cons in H; exact H).
+      destruct (blank_region c BL HBL next phs ne lnb ci _ n Hstop H1 ltac:(lia)) as [extra [ne' E]].
+      exists extra, ne', LineStart. rewrite E. f_equal. cbn [length lf]. lia.
+    + assert (H1 : at_ bs (1 + q) ((sp 0 ++ lf ++ BL) ++ next)) by (apply at_cons in H; exact H).
+      destruct (blank_region (S c) (sp 0 ++ lf ++ BL) (bl_cons 0 lf c BL (or_introl eq_refl) HBL)
+                             next phs ne lnb ci _ n Hstop H1 ltac:(lia)) as [extra [ne' E]].
+      exists extra, ne', LineStart. rewrite E. f_equal. cbn [length crlf lf sp repeat app]. lia.
+Qed.
+
+(* ... after a placeable that ends the line *)
+Lemma after_placeable T used c nx phs ne lnb ci rl q n :
+  after_value T used c nx -> is_line_start rl = false -> at_ bs q T -> 2 * c + 4 <= n ->
+  exists extra ne' role',
+    pattern_loop bs n (PState phs ne lnb ci rl) q = Ok (PState (extra ++ phs) ne' lnb ci role') (used + q).
+Proof.
+  intros HT Hrole H Hn. destruct HT as [|x c BL next Hx HBL Hstop].
+  - destruct n as [|n]; [lia|]. exists [], ne, rl. cbn [pattern_loop]. rewrite bind_get_ptr.
+    rewrite (at_ltb_nil _ _ H). reflexivity.
+  - destruct n as [|n]; [lia|]. destruct Hx as [-> | ->].
+    + cbn [lf app] in H. rewrite (step_eol_lf _ phs ne lnb ci rl q n Hrole H).
+      assert (H1 : at_ bs (S q) (BL ++ next)) by (apply at_cons in H; exact H).
+      destruct (blank_region c BL HBL next (PHText q (S q) 0 rl :: phs) (S ne) lnb ci _ n Hstop H1 ltac:(lia))
+        as [extra [ne' E]].
+      exists (extra ++ [PHText q (S q) 0 rl]), ne', LineStart. rewrite E. f_equal.
+      * rewrite <- app_assoc. reflexivity.
+      * cbn [length lf]. lia.
+    + cbn [crlf app] in H. rewrite (step_eol_crlf _ phs ne lnb ci rl q n Hrole H).
+      assert (H1 : at_ bs (S q) ((sp 0 ++ lf ++ BL) ++ next)) by (apply at_cons in H; exact H).
+      destruct (blank_region (S c) (sp 0 ++ lf ++ BL) (bl_cons 0 lf c BL (or_introl eq_refl) HBL)
+                             next phs ne lnb ci _ n Hstop H1 ltac:(lia)) as [extra [ne' E]].
+      exists extra, ne', LineStart. rewrite E. f_equal. cbn [length crlf lf sp repeat app]. lia.
+Qed.
+
+(* the slice of the last text of the line, trimmed, is the text *)
+Lemma last_text_slice v T used c nx term eo po R q :
+  inner_text v = true -> ends_nonspace v -> after_value T used c nx -> line_tail T term eo po R ->
+  at_ bs q (v ++ T) ->
+  exists v', slice bs q (eo + (length v + q)) = Done v' /\ trim_end v' = v.
+Proof.
+  intros Hv Hlast HT Hlt H. destruct (inner_text_spec v Hv) as (b & r & Ev & Hc & Hline).
+  assert (Hne : v <> []) by (rewrite Ev; discriminate).
+  assert (Hsc : starts_char (v ++ T) = true) by (rewrite Ev; cbn; rewrite Hc; reflexivity).
+  destruct HT as [|x c BL next Hx HBL Hstop].
+  - destruct (line_tail_nil _ _ _ _ Hlt) as (-> & -> & -> & ->). exists v. split; [|apply trim_end_text; assumption].
+    cbn [Nat.add]. rewrite app_nil_r in H, Hsc.
+    replace v with (v ++ []) in H, Hsc by apply app_nil_r.
+    apply (at_slice bs q v [] H Hsc eq_refl).
+  - destruct Hx as [-> | ->];
+      [destruct (line_tail_lf _ _ _ _ _ Hlt) as (-> & -> & -> & ->)
+      |destruct (line_tail_crlf _ _ _ _ _ Hlt) as (-> & -> & -> & ->)].
+    + exists (v ++ [10%N]). split; [|apply trim_end_text_lf; assumption].
+      replace (1 + (length v + q)) with (length (v ++ [10%N]) + q) by (rewrite app_length; cbn [length]; lia).
+      apply (at_slice bs q (v ++ [10%N]) (BL ++ next)).
+      * rewrite <- app_assoc. exact H.
+      * rewrite <- app_assoc. exact Hsc.
+      * apply (blank_lines_starts_char c BL next HBL), region_stop_starts_char, Hstop.
+    + exists v. split; [|apply trim_end_text; assumption].
+      cbn [Nat.add]. apply (at_slice bs q v _ H Hsc). reflexivity.
+Qed.
+
+Fixpoint last_text_ok (els : list pattern_element) : Prop :=
+  match els with
+  | [] => True
+  | [TextElement v] => ends_nonspace v
+  | _ :: r => last_text_ok r
+  end.
+
+Lemma bind_congr {A B} (m m' : M A) (f : A -> M B) p p' : m p = m' p' -> bind m f p = bind m' f p'.
+Proof. intros H. unfold bind. rewrite H. reflexivity. Qed.
+
+(* the pattern loop over the elements of a line, from an element boundary that is not the start of a block *)
+Lemma elements_loop els L : line_layout els L ->
+  forall prev T used c nx lnbF ci phs ne lnb rl p n,
+  simple_elements els prev = true -> last_text_ok els ->
+  after_value T used c nx -> is_line_start rl = false ->
+  (els = [] -> lnb = Some lnbF) -> (els <> [] -> lnbF = ne + length els - 1) ->
+  at_ bs p (L ++ T) -> length L + 2 * c + 8 <= n ->
+  exists phs_new extra ne' role',
+    pattern_loop bs n (PState phs ne lnb ci rl) p =
+      Ok (PState (extra ++ rev phs_new ++ phs) ne' (Some lnbF) ci role') (used + (length L + p)) /\
+    fin_all lnbF ci ne phs_new els /\ length phs_new = length els.
+Proof.
+  induction 1 as [| v r L HL IH | i b1 b2 r L Hb1 Hb2 HL IH];
+    intros prev T used c nx lnbF ci phs ne lnb rl p n Hs Hlast HT Hrole Hnil Hcons H Hn.
+  - (* nothing left: the line ended with a placeable *)
+    rewrite (Hnil eq_refl). cbn [app length Nat.add] in *.
+    destruct (after_placeable T used c nx phs ne (Some lnbF) ci rl p n HT Hrole H ltac:(lia)) as (extra & ne' & role' & E).
+    exists [], extra, ne', role'. split; [exact E | split; [constructor | reflexivity]].
+  - (* a text *)
+    cbn [simple_elements] in Hs. apply andb_prop in Hs as [Hs Hr]. apply andb_prop in Hs as [_ Hv].
+    destruct (inner_text_spec v Hv) as (b & t & Ev & Hc & Hline).
+    assert (Hlenv : 1 <= length v) by (rewrite Ev; cbn [length]; lia).
+    assert (Hnev : v <> []) by (rewrite Ev; discriminate).
+    assert (Hscv : forall X, starts_char (v ++ X) = true) by (intros X; rewrite Ev; cbn; rewrite Hc; reflexivity).
+    clear Ev Hc b t.
+    destruct n as [|n]; [lia|].
+    rewrite <- app_assoc in H.
+    destruct r as [|el2 r2].
+    + (* the last element *)
+      inversion HL; subst. cbn [app] in H. cbn [last_text_ok] in Hlast. cbn [length] in Hcons.
+      assert (HlnbF : lnbF = ne) by (rewrite (Hcons ltac:(discriminate)); lia). subst lnbF.
+      destruct (after_value_line_tail T used c nx HT) as (term & eo & po & R & Hlt).
+      assert (Hnb : is_nonblank v = true) by (apply nonblank_last; [exact Hnev | exact Hlast]).
+      destruct (get_text_slice_line p v T term eo po R H Hline Hlt) as [Hts _]. rewrite Hnb in Hts.
+      rewrite (step_text v T term eo po true phs ne lnb ci rl p n Hrole Hv H Hts).
+      destruct (after_line T used c nx term eo po R (PHText p (eo + (length v + p)) 0 rl :: phs) (S ne) (Some ne) ci
+                           (length v + p) n HT Hlt (at_app _ _ _ _ H) ltac:(rewrite app_nil_r in Hn; lia))
+        as (extra & ne' & role' & E).
+      exists [PHText p (eo + (length v + p)) 0 rl], extra, ne', role'. split; [|split; [|reflexivity]].
+      * rewrite E. rewrite app_nil_r. cbn [rev app]. reflexivity.
+      * destruct (last_text_slice v T used c nx term eo po R p Hv Hlast HT Hlt H) as [v' [Es Et]].
+        apply fa_some; [|constructor].
+        pose proof (fin_text ne ci ne p (eo + (length v + p)) 0 rl p v') as Hf.
+        rewrite Hrole, Nat.eqb_refl, Et in Hf. apply Hf; [reflexivity | lia | exact Es].
+    + (* a placeable follows *)
+      destruct el2 as [v2 | [sel vs | i2]]; cbn [simple_elements] in Hr; try discriminate Hr.
+      inversion HL as [| | i2' b1 b2 r2' L2 Hb1 Hb2 HL2]; subst.
+      assert (Hts : get_text_slice bs p = Ok (p, 0 + (length v + p), is_nonblank v, TPlaceableStart) (0 + (length v + p)))
+        by (apply (get_text_slice_placeable bs p v _ H Hline)).
+      rewrite (step_text v _ TPlaceableStart 0 0 (is_nonblank v) phs ne lnb ci rl p n Hrole Hv H Hts).
+      cbn [role_after Nat.add].
+      assert (Hs' : simple_elements (PlaceableElement (Inline i2) :: r2) true = true) by (cbn [simple_elements]; exact Hr).
+      assert (Hnil' : PlaceableElement (Inline i2) :: r2 = [] -> (if is_nonblank v then Some ne else lnb) = Some lnbF)
+        by discriminate.
+      assert (Hcons' : PlaceableElement (Inline i2) :: r2 <> [] ->
+                       lnbF = S ne + length (PlaceableElement (Inline i2) :: r2) - 1).
+      { intros _. rewrite (Hcons ltac:(discriminate)). cbn [length]. lia. }
+      assert (Hn' : length (123%N :: b1 ++ inline_text i2 ++ b2 ++ 125%N :: L2) + 2 * c + 8 <= n)
+        by (rewrite app_length in Hn; lia).
+      destruct (IH true T used c nx lnbF ci (PHText p (length v + p) 0 rl :: phs) (S ne)
+                   (if is_nonblank v then Some ne else lnb) Continuation (length v + p) n
+                   Hs' Hlast HT eq_refl Hnil' Hcons' (at_app _ _ _ _ H) Hn')
+        as (pn & extra & ne' & role' & E & Hfin & Hlen).
+      exists (PHText p (length v + p) 0 rl :: pn), extra, ne', role'. split; [|split].
+      * rewrite E. f_equal; [|rewrite !app_length; lia]. f_equal. cbn [rev]. rewrite <- !app_assoc. reflexivity.
+      * apply fa_some; [|exact Hfin].
+         pose proof (fin_text lnbF ci ne p (length v + p) 0 rl p v) as Hf.
+         rewrite Hrole in Hf.
+         replace (Nat.eqb lnbF ne) with false in Hf
+           by (symmetry; apply Nat.eqb_neq; rewrite (Hcons ltac:(discriminate)); cbn [length]; lia).
+         apply Hf; [reflexivity | lia|].
+         apply (at_slice bs p v _ H); [apply Hscv | reflexivity].
+      * cbn [length]. rewrite Hlen. reflexivity.
+  - (* a placeable *)
+    cbn [simple_elements] in Hs. apply andb_prop in Hs as [Hi Hr].
+    destruct n as [|n]; [lia|].
+    assert (H' : at_ bs p (123%N :: b1 ++ inline_text i ++ b2 ++ 125%N :: L ++ T)).
+    { cbn [app] in H. rewrite <- !app_assoc in H. cbn [app] in H. exact H. }
+    assert (HlenL : length (123%N :: b1 ++ inline_text i ++ b2 ++ 125%N :: L) =
+                    length (123%N :: b1 ++ inline_text i ++ b2 ++ [125%N]) + length L).
+    { cbn [length]. rewrite !app_length. cbn [length]. lia. }
+    rewrite (step_placeable i b1 b2 (L ++ T) phs ne lnb ci rl p n Hrole Hi Hb1 Hb2 H'
+               ltac:(rewrite HlenL in Hn; cbn [length] in Hn; rewrite !app_length in Hn; lia)).
+    assert (H2 : at_ bs (length (123%N :: b1 ++ inline_text i ++ b2 ++ [125%N]) + p) (L ++ T)).
+    { replace (123%N :: b1 ++ inline_text i ++ b2 ++ 125%N :: L ++ T)
+        with ((123%N :: b1 ++ inline_text i ++ b2 ++ [125%N]) ++ L ++ T) in H'
+        by (cbn [app]; rewrite <- !app_assoc; reflexivity).
+      apply (at_app _ _ _ _ H'). }
+    assert (Hlast' : last_text_ok r) by (destruct r; [exact Logic.I | exact Hlast]).
+    assert (Hnil' : r = [] -> Some ne = Some lnbF).
+    { intros ->. rewrite (Hcons ltac:(discriminate)). cbn [length]. f_equal. lia. }
+    assert (Hcons' : r <> [] -> lnbF = S ne + length r - 1).
+    { intros Hne. rewrite (Hcons ltac:(discriminate)). cbn [length]. destruct r; [congruence | cbn [length]; lia]. }
+    assert (Hn' : length L + 2 * c + 8 <= n) by (rewrite HlenL in Hn; cbn [length] in Hn |- *; lia).
+    destruct (IH false T used c nx lnbF ci (PHPlaceable (Inline i) :: phs) (S ne) (Some ne) Continuation _ n
+                 Hr Hlast' HT eq_refl Hnil' Hcons' H2 Hn')
+      as (pn & extra & ne' & role' & E & Hfin & Hlen).
+    exists (PHPlaceable (Inline i) :: pn), extra, ne', role'. split; [|split].
+    + rewrite E. f_equal; [|rewrite HlenL; lia]. f_equal. cbn [rev]. rewrite <- !app_assoc. reflexivity.
+    + apply fa_some; [apply fin_placeable | exact Hfin].
+    + cbn [length]. rewrite Hlen. reflexivity.
+Qed.
+
+Lemma line_layout_placeable_inv i r L : line_layout (PlaceableElement (Inline i) :: r) L ->
+  exists b1 b2 L2, L = 123%N :: b1 ++ inline_text i ++ b2 ++ 125%N :: L2 /\ all_blank b1 /\ all_blank b2 /\
+                   line_layout r L2.
+Proof. intros H. inversion H; subst. eauto 8. Qed.
+
+Lemma finish_pattern_ok extra phs_all ne' lnbF ci role' els q :
+  fin_all lnbF ci 0 phs_all els -> length phs_all = S lnbF ->
+  finish_pattern bs (PState (extra ++ rev phs_all) ne' (Some lnbF) ci role') q = Ok (Some (Pattern els)) q.
+Proof.
+  intros Hfin Hlen. unfold finish_pattern. cbn [last_non_blank elements common_indent].
+  rewrite rev_app_distr, rev_involutive. rewrite <- Hlen, firstn_app_len.
+  step (finish_elements_all lnbF ci 0 phs_all els Hfin q). reflexivity.
+Qed.
+
+Lemma last_ok_last_text_ok els prev : simple_elements els prev = true -> last_ok els = true -> last_text_ok els.
+Proof.
+  revert prev. induction els as [|el r IH]; intros prev Hs Hl; [exact Logic.I|].
+  destruct r as [|el2 r2].
+  - destruct el as [v|e]; [|exact Logic.I]. cbn [last_ok rev app] in Hl. cbn [last_text_ok].
+    apply negb_true_iff in Hl. exact Hl.
+  - assert (Hl' : last_ok (el2 :: r2) = true).
+    { unfold last_ok in *. cbn [rev] in Hl |- *. destruct (rev r2 ++ [el2]) eqn:E; [destruct (rev r2); discriminate|].
+      cbn [app] in Hl. exact Hl. }
+    assert (Hs' : exists prev', simple_elements (el2 :: r2) prev' = true).
+    { destruct el as [v | [sel vs | i]]; cbn [simple_elements] in Hs; try discriminate Hs.
+      - apply andb_prop in Hs as [_ Hs]. exists true. exact Hs.
+      - apply andb_prop in Hs as [_ Hs]. exists false. exact Hs. }
+    destruct Hs' as [prev' Hs']. specialize (IH prev' Hs' Hl').
+    destruct el; exact IH.
+Qed.
+
+(* the first byte of a line *)
+Lemma line_layout_head els L prev T : line_layout els L -> els <> [] -> simple_elements els prev = true ->
+  first_ok els = true ->
+  head_not is_space (L ++ T) /\ no_eol_head (L ++ T) /\ no_blank_line_head (L ++ T).
+Proof.
+  intros HL Hne Hs Hf. destruct HL as [| v r L HL | i b1 b2 r L Hb1 Hb2 HL]; [congruence| |].
+  - cbn [simple_elements] in Hs. apply andb_prop in Hs as [Hs _]. apply andb_prop in Hs as [_ Hv].
+    destruct (inner_text_spec v Hv) as (b & t & -> & Hc & Hline).
+    cbn [first_ok] in Hf. apply negb_true_iff in Hf.
+    unfold text_line in Hline. cbn [forallb] in Hline. apply andb_prop in Hline as [Hb _].
+    apply wf_text_byte_spec in Hb as (_ & _ & H13 & H10). cbn [app].
+    split; [exact Hf | split; [apply no_eol_head_byte | apply no_blank_line_head_byte]; assumption].
+  - cbn [app]. split; [reflexivity | split; reflexivity].
 Qed.
 
 Lemma no_blank_line_head_sp ind l : head_not is_space l -> no_eol_head l -> no_blank_line_head (sp ind ++ l).
@@ -782,41 +1110,149 @@ Proof.
   replace ind with (length (sp ind)) at 1 by apply sp_length. rewrite skipn_app_len. exact H2.
 Qed.
 
-(* get_pattern on a printed single-line value *)
-Lemma get_pattern_value v V T used c nx p n :
-  simple_text v = true -> value_layout v V -> after_value T used c nx -> at_ bs p (V ++ T) ->
-  2 * c + 5 <= n ->
-  get_pattern bs n p = Ok (Some (Pattern [TextElement v])) (used + (length V + p)).
+(* the pattern loop and finish_pattern on a printed line, from the position get_pattern hands over *)
+Lemma line_inline els L T used c nx p n :
+  simple_pattern (Pattern els) = true -> line_layout els L -> after_value T used c nx ->
+  at_ bs p (L ++ T) -> length L + 2 * c + 8 <= n ->
+  (st <- pattern_loop bs n (PState [] 0 None None InitialLineStart) ;; finish_pattern bs st) p =
+  Ok (Some (Pattern els)) (used + (length L + p)).
 Proof.
-  intros Hv HV HT H Hn.
-  destruct n as [|[|n]]; [lia | lia |].
-  destruct (after_value_line_tail T used c nx HT) as (term & eo & po & R & Hlt).
-  destruct (simple_text_head v T Hv) as (Hh1 & Hh2 & Hh3).
-  cbn [get_pattern].
-  destruct HV as [k | k x c' BL ind Hok Hx HBL Hind].
-  - rewrite <- app_assoc in H.
-    step (skip_blank_inline_sp bs p k (v ++ T) H Hh1).
+  intros Hp HL HT H Hn. destruct (simple_pattern_parts els Hp) as (Hne & Hs & Hf & Hl).
+  destruct (elements_loop els L HL false T used c nx (length els - 1) None [] 0 None InitialLineStart p n
+              Hs (last_ok_last_text_ok els false Hs Hl) HT eq_refl ltac:(congruence) ltac:(intros _; reflexivity) H Hn)
+    as (pn & extra & ne' & role' & E & Hfin & Hlen).
+  step E. rewrite app_nil_r.
+  apply finish_pattern_ok; [exact Hfin|]. rewrite Hlen. destruct els; [congruence | cbn [length]; lia].
+Qed.
+
+Lemma line_block els L ind T used c nx p n :
+  simple_pattern (Pattern els) = true -> first_byte_ok_for_block (Pattern els) = true -> 1 <= ind ->
+  line_layout els L -> after_value T used c nx ->
+  at_ bs p (sp ind ++ L ++ T) -> length L + 2 * c + 9 <= n ->
+  (st <- pattern_loop bs n (PState [] 0 None None LineStart) ;; finish_pattern bs st) p =
+  Ok (Some (Pattern els)) (used + (length L + (ind + p))).
+Proof.
+  intros Hp Hok Hind HL HT H Hn. destruct (simple_pattern_parts els Hp) as (Hne & Hs & Hf & Hl).
+  pose proof (last_ok_last_text_ok els false Hs Hl) as Hlast.
+  destruct n as [|n]; [lia|].
+  pose proof (at_app _ _ _ _ H) as Hq. rewrite sp_length in Hq.
+  destruct HL as [| v r L HL | i b1 b2 r L Hb1 Hb2 HL]; [congruence| |].
+  - (* the line starts with text *)
+    cbn [simple_elements] in Hs. apply andb_prop in Hs as [Hs Hr]. apply andb_prop in Hs as [_ Hv].
+    destruct (inner_text_spec v Hv) as (b & t & Ev & Hc & Hline).
+    assert (H32 : N.eqb b 32 = false) by (rewrite Ev in Hf; cbn [first_ok] in Hf; apply negb_true_iff, Hf).
+    assert (Hcont : is_byte_pattern_continuation b = true).
+    { unfold text_line in Hline. rewrite Ev in Hline. cbn [forallb] in Hline. apply andb_prop in Hline as [Hb' _].
+      apply wf_text_byte_spec in Hb' as (_ & H125 & _ & _).
+      rewrite Ev in Hok. cbn [first_byte_ok_for_block pattern_elements] in Hok.
+      apply negb_true_iff in Hok. apply orb_false_elim in Hok as [Hok H42]. apply orb_false_elim in Hok as [H46 H91].
+      unfold is_byte_pattern_continuation. rewrite H46, H125, H91, H42. reflexivity. }
+    assert (Hnb : is_nonblank v = true).
+    { rewrite Ev. cbn [is_nonblank existsb]. unfold c_sp. rewrite H32. reflexivity. }
+    assert (Hscv : forall X, starts_char (v ++ X) = true) by (intros X; rewrite Ev; cbn; rewrite Hc; reflexivity).
+    assert (Hlenv : 1 <= length v) by (rewrite Ev; cbn [length]; clear; lia).
+    rewrite <- app_assoc in H, Hq.
+    destruct r as [|el2 r2].
+    + (* and that is all *)
+      inversion HL; subst L. rewrite app_nil_r in *. cbn [app] in H, Hq. cbn [last_text_ok] in Hlast.
+      destruct (after_value_line_tail T used c nx HT) as (term & eo & po & R & Hlt).
+      destruct (get_text_slice_line (ind + p) v T term eo po R Hq Hline Hlt) as [Hts _]. rewrite Hnb in Hts.
+      rewrite (bind_congr _ _ _ _ _ (step_block_text v b t ind T term eo po p n Ev Hline H32 Hcont Hind H Hts)).
+      destruct (after_line T used c nx term eo po R [PHText p (eo + (length v + (ind + p))) ind LineStart] 1 (Some 0) (Some ind)
+                           (length v + (ind + p)) n HT Hlt (at_app _ _ _ _ Hq) ltac:(clear - Hn; lia))
+        as (extra & ne' & role' & E).
+      step E.
+      apply (finish_pattern_ok extra [PHText p (eo + (length v + (ind + p))) ind LineStart] ne' 0 (Some ind) role');
+        [|reflexivity].
+      destruct (last_text_slice v T used c nx term eo po R (ind + p) Hv Hlast HT Hlt Hq) as [v' [Es Et]].
+      apply fa_some; [|constructor].
+      pose proof (fin_text 0 (Some ind) 0 p (eo + (length v + (ind + p))) ind LineStart (ind + p) v') as Hfn.
+      cbn [is_line_start Nat.eqb] in Hfn. rewrite Et in Hfn.
+      apply Hfn; [clear; lia | clear - Hlenv; lia | exact Es].
+    + (* a placeable follows *)
+      destruct el2 as [v2 | [sel vs | i2]]; cbn [simple_elements] in Hr; try discriminate Hr.
+      destruct (line_layout_placeable_inv i2 r2 L HL) as (b1 & b2 & L2 & -> & Hb1 & Hb2 & HL2).
+      assert (Hts : get_text_slice bs (ind + p) =
+                    Ok (ind + p, 0 + (length v + (ind + p)), true, TPlaceableStart) (0 + (length v + (ind + p)))).
+      { rewrite <- Hnb. apply (get_text_slice_placeable bs (ind + p) v _ Hq Hline). }
+      rewrite (bind_congr _ _ _ _ _ (step_block_text v b t ind _ TPlaceableStart 0 0 p n Ev Hline H32 Hcont Hind H Hts)).
+      cbn [role_after Nat.add].
+      assert (Hs' : simple_elements (PlaceableElement (Inline i2) :: r2) true = true) by (cbn [simple_elements]; exact Hr).
+      assert (HL' : line_layout (PlaceableElement (Inline i2) :: r2) (123%N :: b1 ++ inline_text i2 ++ b2 ++ 125%N :: L2))
+        by (constructor; assumption).
+      destruct (elements_loop _ _ HL' true T used c nx (length (PlaceableElement (Inline i2) :: r2)) (Some ind)
+                  [PHText p (length v + (ind + p)) ind LineStart] 1 (Some 0) Continuation (length v + (ind + p)) n
+                  Hs' Hlast HT eq_refl ltac:(discriminate) ltac:(clear; intros _; cbn [length]; lia)
+                  (at_app _ _ _ _ Hq) ltac:(clear - Hn; rewrite app_length in Hn; lia))
+        as (pn & extra & ne' & role' & E & Hfin & Hlen).
+      step E.
+      replace (extra ++ rev pn ++ [PHText p (length v + (ind + p)) ind LineStart])
+        with (extra ++ rev (PHText p (length v + (ind + p)) ind LineStart :: pn)) by reflexivity.
+      rewrite (finish_pattern_ok extra _ ne' _ (Some ind) role' (TextElement v :: PlaceableElement (Inline i2) :: r2)).
+      * f_equal. rewrite !app_length. clear; lia.
+      * apply fa_some; [|exact Hfin].
+        pose proof (fin_text (length (PlaceableElement (Inline i2) :: r2)) (Some ind) 0 p (length v + (ind + p)) ind LineStart
+                             (ind + p) v) as Hfn.
+        cbn [is_line_start] in Hfn. cbn [length Nat.eqb] in Hfn.
+        apply Hfn; [clear; lia | clear - Hlenv; lia|].
+        apply (at_slice bs (ind + p) v _ Hq); [apply Hscv | reflexivity].
+      * cbn [length]. rewrite Hlen. reflexivity.
+  - (* the line starts with a placeable *)
+    assert (H' : at_ bs p (sp ind ++ 123%N :: (b1 ++ inline_text i ++ b2 ++ 125%N :: L) ++ T)) by exact H.
+    rewrite (bind_congr _ _ _ _ _ (step_block_indent ind _ p n Hind H')).
+    assert (HL' : line_layout (PlaceableElement (Inline i) :: r) (123%N :: b1 ++ inline_text i ++ b2 ++ 125%N :: L))
+      by (constructor; assumption).
+    destruct (elements_loop _ _ HL' false T used c nx (length (PlaceableElement (Inline i) :: r)) (Some ind)
+                [PHText p (ind + p) ind LineStart] 1 None Continuation (ind + p) n
+                Hs Hlast HT eq_refl ltac:(discriminate) ltac:(clear; intros _; cbn [length]; lia) Hq ltac:(clear - Hn; lia))
+      as (pn & extra & ne' & role' & E & Hfin & Hlen).
+    step E.
+    replace (extra ++ rev pn ++ [PHText p (ind + p) ind LineStart])
+      with (extra ++ rev (PHText p (ind + p) ind LineStart :: pn)) by reflexivity.
+    apply finish_pattern_ok.
+    + apply fa_none; [|exact Hfin]. apply fin_text_none. cbn [is_line_start]. clear; lia.
+    + cbn [length]. rewrite Hlen. reflexivity.
+Qed.
+
+Lemma get_pattern_S n :
+  get_pattern bs (S n) =
+  (skip_blank_inline bs ;;;
+   eol <- skip_eol bs ;;
+   r <- (if eol then skip_blank_block bs ;;; ret LineStart else ret InitialLineStart) ;;
+   st <- pattern_loop bs n (PState [] 0 None None r) ;;
+   finish_pattern bs st).
+Proof. reflexivity. Qed.
+
+(* get_pattern on a printed one-line value *)
+Lemma get_pattern_value els V T used c nx p n :
+  simple_pattern (Pattern els) = true -> value_layout els V -> after_value T used c nx -> at_ bs p (V ++ T) ->
+  length V + 2 * c + 12 <= n ->
+  get_pattern bs n p = Ok (Some (Pattern els)) (used + (length V + p)).
+Proof.
+  intros Hp HV HT H Hn. destruct (simple_pattern_parts els Hp) as (Hne & Hs & Hf & Hl).
+  destruct n as [|n]; [lia|]. rewrite get_pattern_S.
+  destruct HV as [k L HL | k x c' BL ind L Hok Hx HBL Hind HL].
+  - destruct (line_layout_head els L false T HL Hne Hs Hf) as (Hh1 & Hh2 & Hh3).
+    rewrite <- app_assoc in H.
+    step (skip_blank_inline_sp bs p k (L ++ T) H Hh1).
     pose proof (at_app _ _ _ _ H) as H1. rewrite sp_length in H1.
-    step (skip_eol_none bs (k + p) (v ++ T) H1 Hh2). rewrite bind_ret.
-    rewrite (bind_congr _ _ _ _ _ (first_line_inline v T term eo po R (k + p) n Hv H1 Hlt)).
-    rewrite (value_rest v T used c nx (k + p) (k + p) 0 InitialLineStart None n Hv HT H1 eq_refl ltac:(lia)
-                        term eo po R Hlt).
+    step (skip_eol_none bs (k + p) (L ++ T) H1 Hh2). rewrite bind_ret.
+    rewrite (line_inline els L T used c nx (k + p) n Hp HL HT H1) by (rewrite app_length, sp_length in Hn; lia).
     f_equal. rewrite app_length, sp_length. lia.
-  - rewrite <- !app_assoc in H.
-    assert (Hhx : head_not is_space (x ++ BL ++ sp ind ++ v ++ T)) by (destruct Hx as [-> | ->]; reflexivity).
+  - destruct (line_layout_head els L false T HL Hne Hs Hf) as (Hh1 & Hh2 & Hh3).
+    rewrite <- !app_assoc in H.
+    assert (Hhx : head_not is_space (x ++ BL ++ sp ind ++ L ++ T)) by (destruct Hx as [-> | ->]; reflexivity).
     step (skip_blank_inline_sp bs p k _ H Hhx).
     pose proof (at_app _ _ _ _ H) as H1. rewrite sp_length in H1.
     step (skip_eol_eol bs (k + p) x _ H1 Hx).
     pose proof (at_app _ _ _ _ H1) as H2.
-    assert (Hnb : no_blank_line_head (sp ind ++ v ++ T)) by (apply no_blank_line_head_sp; assumption).
+    assert (Hnb : no_blank_line_head (sp ind ++ L ++ T)) by (apply no_blank_line_head_sp; assumption).
     rewrite bind_assoc.
     step (skip_blank_block_lines bs _ c' BL _ H2 HBL Hnb). rewrite bind_ret.
     pose proof (at_app _ _ _ _ H2) as H3.
     set (p0 := length BL + (length x + (k + p))) in *.
-    rewrite (bind_congr _ _ _ _ _ (first_line_block v ind T term eo po R p0 n Hv Hok Hind H3 Hlt)).
-    pose proof (at_app _ _ _ _ H3) as H4. rewrite sp_length in H4.
-    rewrite (value_rest v T used c nx (ind + p0) p0 ind LineStart (Some ind) n Hv HT H4
-                        ltac:(cbn [is_line_start]; lia) ltac:(lia) term eo po R Hlt).
+    rewrite (line_block els L ind T used c nx p0 n Hp Hok Hind HL HT H3)
+      by (rewrite !app_length, !sp_length in Hn; lia).
     f_equal. unfold p0. rewrite !app_length, !sp_length. lia.
 Qed.
 
@@ -895,18 +1331,18 @@ Proof. destruct k; split; reflexivity. Qed.
    attribute, the largest number of blank lines after a value, bytes up to what follows *)
 Inductive attrs_at : list attribute -> bytes -> bytes -> nat -> nat -> Prop :=
 | aa_nil next : attrs_at [] next next 0 0
-| aa_cons aid v r k k1 V T used c R next cm len :
-    wf_identifier aid = true -> simple_text v = true ->
-    value_layout v V -> after_value T used c R -> attrs_at r R next cm len ->
-    attrs_at (Attribute aid (Pattern [TextElement v]) :: r)
+| aa_cons aid els r k k1 V T used c R next cm len :
+    wf_identifier aid = true -> simple_pattern (Pattern els) = true ->
+    value_layout els V -> after_value T used c R -> attrs_at r R next cm len ->
+    attrs_at (Attribute aid (Pattern els) :: r)
              (sp (S k) ++ 46%N :: aid ++ sp k1 ++ 61%N :: V ++ T) next (Nat.max c cm)
              (length (sp (S k) ++ 46%N :: aid ++ sp k1 ++ 61%N :: V) + used + len).
 
-Lemma get_attribute_at aid v k1 V T used c R p n :
-  wf_identifier aid = true -> simple_text v = true -> value_layout v V -> after_value T used c R ->
-  at_ bs p (aid ++ sp k1 ++ 61%N :: V ++ T) -> 2 * c + 5 <= n ->
+Lemma get_attribute_at aid els k1 V T used c R p n :
+  wf_identifier aid = true -> simple_pattern (Pattern els) = true -> value_layout els V -> after_value T used c R ->
+  at_ bs p (aid ++ sp k1 ++ 61%N :: V ++ T) -> length V + 2 * c + 12 <= n ->
   get_attribute bs n p =
-  Ok (Attribute aid (Pattern [TextElement v])) (used + (length (aid ++ sp k1 ++ 61%N :: V) + p)).
+  Ok (Attribute aid (Pattern els)) (used + (length (aid ++ sp k1 ++ 61%N :: V) + p)).
 Proof.
   intros Hid Hv HV HT H Hn. unfold get_attribute.
   destruct (sp_eq_head k1 (V ++ T)) as [Hh1 Hh2].
@@ -916,15 +1352,15 @@ Proof.
   pose proof (at_app _ _ _ _ H1) as H2. rewrite sp_length in H2.
   step (expect_byte_yes bs _ 61 _ H2).
   pose proof (at_cons _ _ _ _ H2) as H3.
-  step (get_pattern_value v V T used c R _ n Hv HV HT H3 Hn).
+  step (get_pattern_value els V T used c R _ n Hv HV HT H3 Hn).
   unfold ret. f_equal. rewrite !app_length, sp_length. cbn [length]. lia.
 Qed.
 
 Lemma get_attributes_at attrs R next cm len : attrs_at attrs R next cm len -> entry_start_bytes next ->
-  forall acc p n, at_ bs p R -> 2 * cm + 6 + length attrs <= n ->
+  forall acc p n, at_ bs p R -> len + 2 * cm + 14 <= n ->
   get_attributes bs n acc p = Ok (rev acc ++ attrs) (len + p) /\ at_ bs (len + p) next.
 Proof.
-  intros HA Hnext. induction HA as [next | aid v r k k1 V T used c R next cm len Hid Hv HV HT HA IH];
+  intros HA Hnext. induction HA as [next | aid els r k k1 V T used c R next cm len Hid Hv HV HT HA IH];
     intros acc p n H Hn.
   - split; [|exact H]. rewrite app_nil_r. apply (get_attributes_none next acc p n Hnext H). lia.
   - destruct n as [|n]; [lia|]. cbn [get_attributes]. rewrite bind_get_ptr.
@@ -932,16 +1368,17 @@ Proof.
     pose proof (at_app _ _ _ _ H) as H1. rewrite sp_length in H1.
     step (take_byte_if_yes bs _ 46 _ H1).
     pose proof (at_cons _ _ _ _ H1) as H2.
-    assert (Hc : 2 * c + 5 <= n) by (cbn [length] in Hn; lia).
-    pose proof (get_attribute_at aid v k1 V T used c R _ n Hid Hv HV HT H2 Hc) as Hga.
+    assert (Hc : length V + 2 * c + 12 <= n).
+    { rewrite (app_length (sp (S k))), sp_length in Hn. cbn [length] in Hn. rewrite !app_length in Hn. cbn [length] in Hn. lia. }
+    pose proof (get_attribute_at aid els k1 V T used c R _ n Hid Hv HV HT H2 Hc) as Hga.
     cbn [negb]. step (try_ok _ _ _ _ Hga).
     assert (H3 : at_ bs (used + (length (aid ++ sp k1 ++ 61%N :: V) + S (S k + p))) R).
     { apply (after_value_next T used c R HT).
       replace (aid ++ sp k1 ++ 61%N :: V ++ T) with ((aid ++ sp k1 ++ 61%N :: V) ++ T) in H2
         by (rewrite <- !app_assoc; reflexivity).
       apply (at_app _ _ _ _ H2). }
-    destruct (IH Hnext (Attribute aid (Pattern [TextElement v]) :: acc) _ n H3) as [E Hat].
-    { cbn [length] in Hn. lia. }
+    destruct (IH Hnext (Attribute aid (Pattern els) :: acc) _ n H3) as [E Hat].
+    { rewrite (app_length (sp (S k))), sp_length in Hn. lia. }
     assert (Hpos : len + (used + (length (aid ++ sp k1 ++ 61%N :: V) + S (S k + p))) =
                    length (sp (S k) ++ 46%N :: aid ++ sp k1 ++ 61%N :: V) + used + len + p).
     { rewrite (app_length (sp (S k))), sp_length. cbn [length]. lia. }
@@ -963,7 +1400,7 @@ Qed.
 Lemma attrs_layout_length attrs A : attrs_layout attrs A -> length attrs <= length A.
 Proof.
   induction 1 as [|a r L A HL HA IH]; [cbn; lia|].
-  destruct HL as [aid v x k k1 V Hx HV]. cbn [length]. rewrite !app_length, sp_length. cbn [length].
+  destruct HL as [aid els x k k1 V Hx HV]. cbn [length]. rewrite !app_length, sp_length. cbn [length].
   destruct Hx as [-> | ->]; cbn [length lf crlf]; lia.
 Qed.
 
@@ -977,7 +1414,7 @@ Lemma attrs_layout_at attrs A : attrs_layout attrs A -> forallb simple_attribute
 Proof.
   induction 1 as [|a r L A HL HA IH]; intros Hs T used c next HT; [left; split; reflexivity|].
   right. cbn [forallb] in Hs. apply andb_prop in Hs as [Ha Hr].
-  destruct HL as [aid v x k k1 V Hx HV].
+  destruct HL as [aid els x k k1 V Hx HV].
   unfold simple_attribute in Ha. cbn [attr_id attr_value simple_pattern] in Ha.
   apply andb_prop in Ha as [Hid Hv].
   destruct (IH Hr T used c next HT) as [[-> ->] | (x' & R' & len' & E' & Hx' & HA' & Hstart & Hlen)].
@@ -985,7 +1422,7 @@ Proof.
     split; [rewrite app_nil_r, <- !app_assoc; cbn [app]; rewrite <- !app_assoc; reflexivity|].
     split; [exact Hx|]. split.
     + rewrite <- (Nat.max_0_r c).
-      apply (aa_cons aid v [] k k1 V T used c next next 0 0 Hid Hv HV (entry_tail_after_value _ _ _ _ HT)).
+      apply (aa_cons aid els [] k k1 V T used c next next 0 0 Hid Hv HV (entry_tail_after_value _ _ _ _ HT)).
       constructor.
     + split; [exists k, 46%N; eexists; split; reflexivity|].
       rewrite app_nil_r, !app_length. lia.
@@ -993,7 +1430,7 @@ Proof.
     split; [rewrite <- !app_assoc; cbn [app]; rewrite <- !app_assoc, E'; reflexivity|].
     split; [exact Hx|]. split.
     + replace c with (Nat.max 0 c) by apply Nat.max_0_l.
-      apply (aa_cons aid v r k k1 V (x' ++ [] ++ R') (length x' + length (@nil N)) 0 R' next c len' Hid Hv HV); [|exact HA'].
+      apply (aa_cons aid els r k k1 V (x' ++ [] ++ R') (length x' + length (@nil N)) 0 R' next c len' Hid Hv HV); [|exact HA'].
       constructor; [exact Hx' | constructor|].
       destruct Hstart as (s & b & t & -> & Hb). right; right. exists s, b, t. split; [reflexivity | exact Hb].
     + split; [exists k, 46%N; eexists; split; reflexivity|].
@@ -1038,16 +1475,21 @@ Qed.
 Definition nattrs (e : entry) : nat :=
   match e with Message _ _ a _ | Term _ _ a _ => length a | _ => 0 end.
 
-Lemma get_message_simple id v attrs k V A T used c next p n entry_start :
-  wf_identifier id = true -> simple_text v = true -> forallb simple_attribute attrs = true ->
-  value_layout v V -> attrs_layout attrs A -> entry_tail T used c next ->
-  at_ bs p ((id ++ sp k ++ 61%N :: V ++ A) ++ T) -> 2 * c + 6 + length attrs <= n ->
+Lemma get_message_simple id els attrs k V A T used c next p n entry_start :
+  wf_identifier id = true -> simple_pattern (Pattern els) = true -> forallb simple_attribute attrs = true ->
+  value_layout els V -> attrs_layout attrs A -> entry_tail T used c next ->
+  at_ bs p ((id ++ sp k ++ 61%N :: V ++ A) ++ T) ->
+  length (id ++ sp k ++ 61%N :: V ++ A) + used + 2 * c + 14 <= n ->
   get_message bs n entry_start p =
-  Ok (Message id (Some (Pattern [TextElement v])) attrs None)
+  Ok (Message id (Some (Pattern els)) attrs None)
      (used + (length (id ++ sp k ++ 61%N :: V ++ A) + p)).
 Proof.
   intros Hid Hv Hattrs HV HA HT H Hn. unfold get_message.
   destruct (attrs_tail attrs A T used c next HA Hattrs HT) as (used' & c' & R & cm & len & HT' & HAt & HR & Hc' & Hcm & Hlen).
+  assert (Hfuel1 : length V + 2 * c' + 12 <= n).
+  { rewrite !app_length in Hn. cbn [length] in Hn. rewrite !app_length in Hn. lia. }
+  assert (Hfuel2 : len + 2 * cm + 14 <= n).
+  { rewrite !app_length in Hn. cbn [length] in Hn. rewrite !app_length in Hn. lia. }
   destruct (sp_eq_head k (V ++ A ++ T)) as [Hh1 Hh2].
   assert (H0 : at_ bs p (id ++ sp k ++ 61%N :: V ++ A ++ T)).
   { rewrite <- !app_assoc in H. cbn [app] in H. rewrite <- ?app_assoc in H. exact H. }
@@ -1057,11 +1499,11 @@ Proof.
   pose proof (at_app _ _ _ _ H1) as H2. rewrite sp_length in H2.
   step (expect_byte_yes bs _ 61 _ H2).
   pose proof (at_cons _ _ _ _ H2) as H3.
-  step (get_pattern_value v V (A ++ T) used' c' R _ n Hv HV HT' H3 ltac:(lia)).
+  step (get_pattern_value els V (A ++ T) used' c' R _ n Hv HV HT' H3 Hfuel1).
   pose proof (after_value_next _ _ _ _ HT' _ (at_app _ _ _ _ H3)) as H4.
   step (skip_blank_block_none bs _ R H4 HR).
   assert (Hnext : entry_start_bytes next) by (destruct HT; [left; reflexivity | assumption]).
-  destruct (get_attributes_at attrs R next cm len HAt Hnext [] _ n H4 ltac:(lia)) as [Ega _].
+  destruct (get_attributes_at attrs R next cm len HAt Hnext [] _ n H4 Hfuel2) as [Ega _].
   step Ega. cbn [rev app]. unfold ret. f_equal.
   rewrite !app_length, sp_length. cbn [length]. rewrite !app_length. lia.
 Qed.
@@ -1069,13 +1511,16 @@ Qed.
 Lemma get_message_novalue id attrs k A T used c next p n entry_start :
   wf_identifier id = true -> forallb simple_attribute attrs = true -> attrs <> [] ->
   attrs_layout attrs A -> entry_tail T used c next ->
-  at_ bs p ((id ++ sp k ++ 61%N :: A) ++ T) -> 2 * c + 6 + length attrs <= n ->
+  at_ bs p ((id ++ sp k ++ 61%N :: A) ++ T) ->
+  length (id ++ sp k ++ 61%N :: A) + used + 2 * c + 14 <= n ->
   get_message bs n entry_start p =
   Ok (Message id None attrs None) (used + (length (id ++ sp k ++ 61%N :: A) + p)).
 Proof.
   intros Hid Hattrs Hne HA HT H Hn. unfold get_message.
   destruct (attrs_layout_at attrs A HA Hattrs T used c next HT)
     as [[-> _] | (x & R & len & E & Hx & HAt & (s & b & t & -> & Hb) & Hlen)]; [congruence|].
+  assert (Hfuel2 : len + 2 * c + 14 <= n).
+  { rewrite !app_length in Hn. cbn [length] in Hn. lia. }
   destruct (sp_eq_head k (A ++ T)) as [Hh1 Hh2].
   assert (H0 : at_ bs p (id ++ sp k ++ 61%N :: A ++ T)).
   { rewrite <- !app_assoc in H. cbn [app] in H. rewrite <- ?app_assoc in H. exact H. }
@@ -1089,32 +1534,39 @@ Proof.
   pose proof (at_app _ _ _ _ H3) as H4.
   step (skip_blank_block_none bs _ _ H4 (not_continuation_no_blank_line s b t Hb)).
   assert (Hnext : entry_start_bytes next) by (destruct HT; [left; reflexivity | assumption]).
-  destruct (get_attributes_at attrs _ next c len HAt Hnext [] _ n H4 ltac:(lia)) as [Ega _].
+  destruct (get_attributes_at attrs _ next c len HAt Hnext [] _ n H4 Hfuel2) as [Ega _].
   step Ega. cbn [rev app]. destruct attrs as [|a0 r0]; [congruence|].
   unfold ret. f_equal. rewrite !app_length, sp_length. cbn [length]. lia.
 Qed.
 
-Lemma value_layout_strip v V : value_layout v V ->
-  exists k V0, V = sp k ++ V0 /\ value_layout v (sp 0 ++ V0) /\
-               (simple_text v = true -> forall T, head_not is_space (V0 ++ T)).
+Lemma value_layout_strip els V : value_layout els V ->
+  exists k V0, V = sp k ++ V0 /\ value_layout els (sp 0 ++ V0) /\
+               (simple_pattern (Pattern els) = true -> forall T, head_not is_space (V0 ++ T)).
 Proof.
-  intros [k | k x c BL ind Hok Hx HBL Hind].
-  - exists k, v. split; [reflexivity|]. split; [apply (vl_inline v 0)|].
-    intros Hv T. apply (simple_text_head v T Hv).
-  - exists k, (x ++ BL ++ sp ind ++ v). split; [reflexivity|]. split; [apply (vl_block v 0 x c BL ind); assumption|].
+  intros [k L HL | k x c BL ind L Hok Hx HBL Hind HL].
+  - exists k, L. split; [reflexivity|]. split; [apply (vl_inline els 0 L HL)|].
+    intros Hp T. destruct (simple_pattern_parts els Hp) as (Hne & Hs & Hf & _).
+    apply (line_layout_head els L false T HL Hne Hs Hf).
+  - exists k, (x ++ BL ++ sp ind ++ L). split; [reflexivity|].
+    split; [apply (vl_block els 0 x c BL ind L); assumption|].
     intros _ T. destruct Hx as [-> | ->]; reflexivity.
 Qed.
 
-Lemma get_term_simple id v attrs k V A T used c next p n entry_start :
-  wf_identifier id = true -> simple_text v = true -> forallb simple_attribute attrs = true ->
-  value_layout v V -> attrs_layout attrs A -> entry_tail T used c next ->
-  at_ bs p ((45%N :: id ++ sp k ++ 61%N :: V ++ A) ++ T) -> 2 * c + 6 + length attrs <= n ->
+Lemma get_term_simple id els attrs k V A T used c next p n entry_start :
+  wf_identifier id = true -> simple_pattern (Pattern els) = true -> forallb simple_attribute attrs = true ->
+  value_layout els V -> attrs_layout attrs A -> entry_tail T used c next ->
+  at_ bs p ((45%N :: id ++ sp k ++ 61%N :: V ++ A) ++ T) ->
+  length (45%N :: id ++ sp k ++ 61%N :: V ++ A) + used + 2 * c + 14 <= n ->
   get_term bs n entry_start p =
-  Ok (Term id (Pattern [TextElement v]) attrs None)
+  Ok (Term id (Pattern els) attrs None)
      (used + (length (45%N :: id ++ sp k ++ 61%N :: V ++ A) + p)).
 Proof.
   intros Hid Hv Hattrs HV HA HT H Hn. unfold get_term.
   destruct (attrs_tail attrs A T used c next HA Hattrs HT) as (used' & c' & R & cm & len & HT' & HAt & HR & Hc' & Hcm & Hlen).
+  assert (Hfuel2 : len + 2 * cm + 14 <= n).
+  { cbn [length] in Hn. rewrite !app_length in Hn. cbn [length] in Hn. rewrite !app_length in Hn. lia. }
+  assert (HfuelV : length V + 2 * c' + 12 <= n).
+  { cbn [length] in Hn. rewrite !app_length in Hn. cbn [length] in Hn. rewrite !app_length in Hn. lia. }
   assert (H0 : at_ bs p (45%N :: id ++ sp k ++ 61%N :: V ++ A ++ T)).
   { cbn [app] in H. rewrite <- !app_assoc in H. cbn [app] in H. rewrite <- ?app_assoc in H. exact H. }
   step (expect_byte_yes bs p 45 _ H0).
@@ -1126,15 +1578,17 @@ Proof.
   pose proof (at_app _ _ _ _ H1) as H2. rewrite sp_length in H2.
   step (expect_byte_yes bs _ 61 _ H2).
   pose proof (at_cons _ _ _ _ H2) as H3.
-  destruct (value_layout_strip v V HV) as (kv & V0 & -> & HV0 & Hhead).
+  destruct (value_layout_strip els V HV) as (kv & V0 & -> & HV0 & Hhead).
+  assert (Hfuel1 : length (sp 0 ++ V0) + 2 * c' + 12 <= n).
+  { rewrite app_length in HfuelV. cbn [sp repeat app]. lia. }
   rewrite <- app_assoc in H3.
   step (skip_blank_inline_sp bs _ kv _ H3 (Hhead Hv (A ++ T))).
   pose proof (at_app _ _ _ _ H3) as H3'. rewrite sp_length in H3'.
-  step (get_pattern_value v (sp 0 ++ V0) (A ++ T) used' c' R _ n Hv HV0 HT' H3' ltac:(lia)).
+  step (get_pattern_value els (sp 0 ++ V0) (A ++ T) used' c' R _ n Hv HV0 HT' H3' Hfuel1).
   pose proof (after_value_next _ _ _ _ HT' _ (at_app _ _ _ _ H3')) as H4.
   step (skip_blank_block_none bs _ R H4 HR).
   assert (Hnext : entry_start_bytes next) by (destruct HT; [left; reflexivity | assumption]).
-  destruct (get_attributes_at attrs R next cm len HAt Hnext [] _ n H4 ltac:(lia)) as [Ega _].
+  destruct (get_attributes_at attrs R next cm len HAt Hnext [] _ n H4 Hfuel2) as [Ega _].
   step Ega. cbn [rev app]. unfold ret. f_equal.
   cbn [sp repeat app length]. rewrite !app_length, !sp_length. cbn [length].
   rewrite !app_length, sp_length. lia.
@@ -1338,13 +1792,13 @@ Definition nlines (e : entry) : nat :=
 (* get_entry on a printed message or term of the fragment *)
 Lemma get_entry_simple e E T used c next p n :
   simple_entry e = true -> is_comment_entry e = false -> entry_layout e E -> entry_tail T used c next ->
-  at_ bs p (E ++ T) -> 2 * c + 6 + nattrs e <= n ->
+  at_ bs p (E ++ T) -> length E + used + 2 * c + 14 <= n ->
   get_entry bs n p p = Ok e (used + (length E + p)).
 Proof.
   intros He Hnc HE HT H Hn. unfold get_entry. rewrite bind_current_byte.
   destruct HE as [ls C HC | ls C HC | ls C HC
-                  | id v attrs k V A HV HA | id attrs k A Hne HA | id v attrs k V A HV HA];
-    try discriminate Hnc; cbn [simple_entry] in He; cbn [nattrs] in Hn.
+                  | id els attrs k V A HV HA | id attrs k A Hne HA | id els attrs k V A HV HA];
+    try discriminate Hnc; cbn [simple_entry] in He.
   - apply andb_prop in He as [He Hattrs]. apply andb_prop in He as [Hid Hv].
     destruct (wf_identifier_head id Hid) as (b & r & Eid & Hb).
     assert (Hb0 : at_ bs p (b :: r ++ (sp k ++ 61%N :: V ++ A) ++ T)).
@@ -1352,7 +1806,8 @@ Proof.
     rewrite (at_byte _ _ _ _ Hb0).
     replace (N.eqb b 35) with false by (unfold is_ascii_alphabetic, in_rng in Hb; lia).
     replace (N.eqb b 45) with false by (unfold is_ascii_alphabetic, in_rng in Hb; lia).
-    apply (get_message_simple id v attrs k V A T used c next p n p); assumption.
+    destruct (simple_pattern_spec _ Hv) as [els' [Eels Hv']]; injection Eels as <-.
+    apply (get_message_simple id els attrs k V A T used c next p n p); assumption.
   - apply andb_prop in He as [He Hattrs]. apply andb_prop in He as [Hid _].
     destruct (wf_identifier_head id Hid) as (b & r & Eid & Hb).
     assert (Hb0 : at_ bs p (b :: r ++ (sp k ++ 61%N :: A) ++ T)).
@@ -1364,7 +1819,7 @@ Proof.
   - apply andb_prop in He as [He Hattrs]. apply andb_prop in He as [Hid Hv].
     assert (Hb0 : at_ bs p (45%N :: (id ++ sp k ++ 61%N :: V ++ A) ++ T)) by exact H.
     rewrite (at_byte _ _ _ _ Hb0). change (N.eqb 45 35) with false. change (N.eqb 45 45) with true. cbv iota.
-    apply (get_term_simple id v attrs k V A T used c next p n p); assumption.
+    apply (get_term_simple id els attrs k V A T used c next p n p); assumption.
 Qed.
 
 (* ---- a comment entry and the blank lines after it ---- *)
@@ -1482,7 +1937,7 @@ Qed.
 (* one entry of the fragment and the blank lines after it *)
 Lemma entry_step e E T used c S' p n :
   simple_entry e = true -> entry_layout e E -> entry_tail T used c S' -> follows_ok e c S' ->
-  at_ bs p (E ++ T) -> 2 * c + 6 + nattrs e + nlines e <= n ->
+  at_ bs p (E ++ T) -> length E + used + 2 * c + 14 <= n ->
   exists p1 cnt, get_entry bs n p p = Ok e p1 /\ skip_blank_block bs p1 = Ok cnt (used + (length E + p)) /\
                  (1 <= c -> is_comment_entry e = true -> cnt = S c).
 Proof.
@@ -1506,7 +1961,8 @@ Proof.
         destruct HP as [[-> _] | [[-> _] | [-> _]]]; cbn [app] in H; apply (at_byte _ _ _ _ H). }
       rewrite Hb. change (N.eqb 35 35) with true. cbv iota. unfold get_comment. step E1. cbv beta iota.
       rewrite Hmk. reflexivity. }
-    destruct HE as [ls C HC | ls C HC | ls C HC | | | ]; try discriminate Hce; cbn [simple_entry follows_ok nlines content] in *.
+    destruct HE as [ls C HC | ls C HC | ls C HC | | | ]; try discriminate Hce; cbn [simple_entry follows_ok nlines content] in *;
+      pose proof (comment_layout_length _ ls C HC ltac:(discriminate)) as HlsC.
     + apply (Hgen [35%N] LRegular ls C CommentEntry HC); auto; [left; auto | lia].
     + apply (Hgen [35; 35]%N LGroup ls C GroupComment HC); auto; [right; left; auto | lia].
     + apply (Hgen [35; 35; 35]%N LResource ls C ResourceComment HC); auto; [right; right; auto | lia].
@@ -1520,7 +1976,7 @@ Lemma entry_layout_start e E : simple_entry e = true -> entry_layout e E -> fora
 Proof.
   intros He HE T.
   destruct HE as [ls C HC | ls C HC | ls C HC
-                  | id v attrs k V A HV HA | id attrs k A Hne HA | id v attrs k V A HV HA]; cbn [simple_entry] in He.
+                  | id els attrs k V A HV HA | id attrs k A Hne HA | id els attrs k V A HV HA]; cbn [simple_entry] in He.
   1-3: (destruct (comment_layout_head _ ls C HC) as [t [-> _]]; right; exists 35%N; eexists;
         (split; [reflexivity | right; right; reflexivity])).
   all: apply andb_prop in He as [He _]; apply andb_prop in He as [Hid _].
@@ -1535,7 +1991,7 @@ Lemma entry_layout_length e E : entry_layout e E -> 1 <= length E /\ nattrs e + 
 Proof.
   intros HE.
   destruct HE as [ls C HC | ls C HC | ls C HC
-                  | id v attrs k V A HV HA | id attrs k A Hne HA | id v attrs k V A HV HA].
+                  | id els attrs k V A HV HA | id attrs k A Hne HA | id els attrs k V A HV HA].
   1-3: (pose proof (comment_layout_length _ ls C HC ltac:(discriminate)) as HL;
         destruct (comment_layout_head _ ls C HC) as [t [EC _]]; apply (f_equal (@length N)) in EC;
         rewrite app_length in EC; cbn [length] in EC; cbn [nattrs nlines content]; lia).
@@ -1562,7 +2018,7 @@ Proof.
   intros Hr HS Hlvl _. destruct HS as [|e2 r' E T HE HT]; [left; reflexivity|].
   cbn [simple_resource forallb] in Hr. apply andb_prop in Hr as [He _]. right.
   destruct HE as [ls C HC | ls C HC | ls C HC
-                  | id v attrs k V A HV HA | id attrs k A Hne HA | id v attrs k V A HV HA];
+                  | id els attrs k V A HV HA | id attrs k A Hne HA | id els attrs k V A HV HA];
     cbn [simple_entry level_of_entry] in *.
   1-3: (right; destruct (comment_layout_head _ ls C HC) as [t [-> Ht]]; rewrite <- app_assoc).
   - exists [35%N], LRegular, (t ++ T). split; [reflexivity|]. split; [left; auto|]. split; [|exact Hlvl].
@@ -1616,7 +2072,7 @@ Definition pending_ok (pending : option comment) (cnt : nat) (t : list entry) : 
 
 (* the main loop over the printed entries *)
 Lemma parse_loop_entries t : forall S, entries_layout t S -> simple_resource t = true ->
-  forall p body pending cnt n, at_ bs p S -> pending_ok pending cnt t -> 2 * length S + 6 <= n ->
+  forall p body pending cnt n, at_ bs p S -> pending_ok pending cnt t -> 8 * length S + 16 <= n ->
   parse_loop bs n body [] pending cnt p = Ok (rev body ++ pending_list pending ++ t, []) (length S + p).
 Proof.
   induction t as [|e r IH]; intros S HS Ht p body pending cnt n H Hpend Hn.
@@ -1633,7 +2089,7 @@ Proof.
       - exfalso. apply (f_equal (@length N)) in E0. rewrite app_length in E0. cbn [length] in E0. lia.
       - rewrite E0 in H. apply (at_ltb _ _ _ _ H). }
     rewrite Hlt. cbn [negb].
-    assert (Hc : 2 * c + 6 + nattrs e + nlines e <= n).
+    assert (Hc : length E + used + 2 * c + 14 <= n).
     { assert (c <= length T).
       { inversion HET; subst; [cbn; lia|]. rewrite !app_length.
         match goal with Hb : blank_lines_of c _ |- _ => pose proof (blank_lines_length _ _ Hb) end. lia. }
@@ -1642,7 +2098,7 @@ Proof.
     rewrite (bind_ok _ _ _ _ _ (try_ok _ _ _ _ Hge)).
     destruct (entry_tail_next T used c S' HET) as [Hnext Hat].
     pose proof (Hat _ (at_app _ _ _ _ H)) as H1.
-    assert (Hfuel : 2 * length S' + 6 <= n) by (rewrite app_length in Hn; lia).
+    assert (Hfuel : 8 * length S' + 16 <= n) by (rewrite app_length in Hn; lia).
     assert (Hpos : length S' + (used + (length E + p)) = length (E ++ T) + p) by (rewrite app_length; lia).
     (* the two continuations *)
     assert (IHnone : forall body', parse_loop bs n body' [] None cnt' (used + (length E + p)) =
@@ -1689,28 +2145,133 @@ Proof. intros Ht. apply parse_layout; [exact Ht | apply render_layout, Ht]. Qed.
 (* ---------------------------------------------------------------------------------------------- *)
 (* 5. The fragment lies inside the grammar; joining is the identity on it                           *)
 
-Lemma simple_text_wf_value v : simple_text v = true -> wf_value (Pattern [TextElement v]) = true.
+Lemma simple_inline_wf i : simple_inline i = true -> wf_expr (Inline i) = true /\ lines_ok_inline i = true.
 Proof.
-  intros Hv. destruct (simple_text_spec v Hv) as (b & r & Ev & H32 & Hc & Hline & Hlast).
-  assert (Hne : v <> []) by (rewrite Ev; discriminate).
-  unfold wf_value. apply andb_true_intro. split.
-  - cbn [wf_pattern negb andb]. rewrite andb_true_r.
+  destruct i as [s | v | id args | id att | id att args | id | e]; cbn [simple_inline]; intros Hi; try discriminate Hi;
+    cbn [wf_expr wf_inline lines_ok_inline].
+  - apply andb_prop in Hi as [Hi _]. auto.
+  - auto.
+  - destruct att as [a|]; [apply andb_prop in Hi as [H1 H2]; rewrite H1, H2 | rewrite Hi]; auto.
+  - destruct att; [discriminate|]. destruct args; [discriminate|]. rewrite Hi. auto.
+  - auto.
+Qed.
+
+(* the two element loops inside wf_pattern and lines_ok_pattern, as functions of the list *)
+Fixpoint wf_els (l : list pattern_element) (prev_text : bool) : bool :=
+  match l with
+  | [] => true
+  | TextElement v :: r =>
+      negb prev_text && negb (match v with [] => true | _ => false end) &&
+      forallb (fun b => wf_text_byte b || N.eqb b 10) v && wf_els r true
+  | PlaceableElement e :: r => wf_expr e && wf_els r false
+  end.
+Fixpoint lines_ok_els (l : list pattern_element) : bool :=
+  match l with
+  | [] => true
+  | TextElement _ :: r => lines_ok_els r
+  | PlaceableElement e :: r => lines_ok_expr e && lines_ok_els r
+  end.
+
+Lemma wf_pattern_els els :
+  wf_pattern (Pattern els) = negb (match els with [] => true | _ => false end) && wf_els els false.
+Proof. reflexivity. Qed.
+Lemma lines_ok_pattern_els els :
+  lines_ok_pattern (Pattern els) = wf_pattern_lines (Pattern els) && lines_ok_els els.
+Proof. reflexivity. Qed.
+
+Lemma simple_elements_wf els : forall prev, simple_elements els prev = true ->
+  wf_els els prev = true /\ lines_ok_els els = true.
+Proof.
+  induction els as [|el r IH]; intros prev Hs; [split; reflexivity|].
+  destruct el as [v | [sel vs | i]]; cbn [simple_elements] in Hs; try discriminate Hs.
+  - apply andb_prop in Hs as [Hs Hr]. apply andb_prop in Hs as [Hp Hv].
+    destruct (inner_text_spec v Hv) as (b & t & Ev & _ & Hline). destruct (IH true Hr) as [IH1 IH2].
+    cbn [wf_els lines_ok_els]. rewrite Hp, IH1. split; [|exact IH2].
     replace (match v with [] => true | _ :: _ => false end) with false by (rewrite Ev; reflexivity).
-    cbn [negb andb]. unfold text_line in Hline. rewrite forallb_forall in *.
+    cbn [negb andb]. rewrite andb_true_r. unfold text_line in Hline. rewrite forallb_forall in *.
     intros x Hx. rewrite (Hline x Hx). reflexivity.
-  - cbn [lines_ok_pattern]. rewrite andb_true_r. unfold wf_pattern_lines, skeleton.
-    cbn [pattern_elements flat_map]. rewrite app_nil_r. unfold lines_of.
-    rewrite (no_lf_lines_of v [] (text_line_no_lf v Hline)). cbn [rev app last forallb filter map min_list].
-    assert (Hb1 : is_blank_line v = false).
-    { rewrite Ev. cbn [is_blank_line forallb]. rewrite N.eqb_sym, H32. reflexivity. }
-    assert (Hb2 : leading_spaces v = 0) by (rewrite Ev; cbn [leading_spaces]; rewrite H32; reflexivity).
-    assert (Hb3 : leading_spaces (rev v) = 0).
-    { rewrite (rev_last v Hne). cbn [leading_spaces]. rewrite Hlast. reflexivity. }
-    rewrite Hb1, Hb2, Hb3. reflexivity.
+  - apply andb_prop in Hs as [Hi Hr]. destruct (IH false Hr) as [IH1 IH2].
+    destruct (simple_inline_wf i Hi) as [W1 W2].
+    cbn [wf_els lines_ok_els lines_ok_expr]. rewrite W1, W2, IH1, IH2. split; reflexivity.
+Qed.
+
+(* the skeleton of a one-line pattern: no line feed, first and last byte not a space *)
+Lemma skeleton_cons el r : skeleton (Pattern (el :: r)) =
+  match el with TextElement v => v | PlaceableElement _ => [123%N] end ++ skeleton (Pattern r).
+Proof. reflexivity. Qed.
+
+Lemma skeleton_no_lf els prev : simple_elements els prev = true -> existsb (N.eqb 10) (skeleton (Pattern els)) = false.
+Proof.
+  revert prev. induction els as [|el r IH]; intros prev Hs; [reflexivity|].
+  rewrite skeleton_cons, existsb_app.
+  destruct el as [v | [sel vs | i]]; cbn [simple_elements] in Hs; try discriminate Hs.
+  - apply andb_prop in Hs as [Hs Hr]. apply andb_prop in Hs as [_ Hv].
+    destruct (inner_text_spec v Hv) as (b & t & _ & _ & Hline).
+    rewrite (text_line_no_lf v Hline), (IH true Hr). reflexivity.
+  - apply andb_prop in Hs as [_ Hr]. rewrite (IH false Hr). reflexivity.
+Qed.
+
+Lemma last_app_ne (a b : bytes) d : b <> [] -> last (a ++ b) d = last b d.
+Proof.
+  intros Hb. induction a as [|x a IH]; [reflexivity|]. cbn [app]. rewrite <- IH.
+  destruct (a ++ b) eqn:E; [|reflexivity]. destruct a; [cbn in E; congruence | discriminate].
+Qed.
+
+Lemma skeleton_last els prev : els <> [] -> simple_elements els prev = true -> last_text_ok els ->
+  skeleton (Pattern els) <> [] /\ N.eqb (last (skeleton (Pattern els)) 0%N) 32 = false.
+Proof.
+  revert prev. induction els as [|el r IH]; intros prev Hne Hs Hl; [congruence|].
+  rewrite skeleton_cons.
+  assert (Hpiece : match el with TextElement v => v | PlaceableElement _ => [123%N] end <> [] /\
+                   (r = [] -> N.eqb (last (match el with TextElement v => v | PlaceableElement _ => [123%N] end) 0%N) 32 = false)).
+  { destruct el as [v | [sel vs | i]]; cbn [simple_elements] in Hs; try discriminate Hs.
+    - apply andb_prop in Hs as [Hs _]. apply andb_prop in Hs as [_ Hv].
+      destruct (inner_text_spec v Hv) as (b & t & -> & _). split; [discriminate|]. intros ->. exact Hl.
+    - split; [discriminate | reflexivity]. }
+  destruct Hpiece as [Hp1 Hp2].
+  destruct r as [|el2 r2].
+  - change (skeleton (Pattern [])) with (@nil N). rewrite app_nil_r. split; [exact Hp1 | apply Hp2; reflexivity].
+  - assert (Hs' : exists prev', simple_elements (el2 :: r2) prev' = true).
+    { destruct el as [v | [sel vs | i]]; cbn [simple_elements] in Hs; try discriminate Hs.
+      - apply andb_prop in Hs as [_ Hs]. exists true. exact Hs.
+      - apply andb_prop in Hs as [_ Hs]. exists false. exact Hs. }
+    destruct Hs' as [prev' Hs'].
+    assert (Hl' : last_text_ok (el2 :: r2)) by (destruct el; exact Hl).
+    destruct (IH prev' ltac:(discriminate) Hs' Hl') as [I1 I2].
+    split; [intros E; apply app_eq_nil in E as [E _]; exact (Hp1 E)|].
+    rewrite (last_app_ne _ _ 0%N I1). exact I2.
+Qed.
+
+Lemma skeleton_first els : els <> [] -> simple_elements els false = true -> first_ok els = true ->
+  exists b t, skeleton (Pattern els) = b :: t /\ N.eqb b 32 = false.
+Proof.
+  intros Hne Hs Hf. destruct els as [|el r]; [congruence|]. rewrite skeleton_cons.
+  destruct el as [v | [sel vs | i]]; cbn [simple_elements] in Hs; try discriminate Hs.
+  - apply andb_prop in Hs as [Hs _]. apply andb_prop in Hs as [_ Hv].
+    destruct (inner_text_spec v Hv) as (b & t & -> & _). cbn [first_ok] in Hf. apply negb_true_iff in Hf.
+    exists b. eexists. split; [reflexivity | exact Hf].
+  - exists 123%N. eexists. split; reflexivity.
 Qed.
 
 Lemma simple_pattern_wf p : simple_pattern p = true -> wf_value p = true.
-Proof. intros H. destruct (simple_pattern_spec p H) as [v [-> Hv]]. apply simple_text_wf_value, Hv. Qed.
+Proof.
+  intros H. destruct (simple_pattern_spec p H) as [els [-> Hp]].
+  destruct (simple_pattern_parts els Hp) as (Hne & Hs & Hf & Hl).
+  destruct (simple_elements_wf els false Hs) as [W1 W2].
+  unfold wf_value. rewrite wf_pattern_els, lines_ok_pattern_els, W1, W2.
+  replace (match els with [] => true | _ :: _ => false end) with false by (destruct els; [congruence | reflexivity]).
+  cbn [negb andb]. rewrite andb_true_r.
+  unfold wf_pattern_lines, lines_of.
+  rewrite (no_lf_lines_of _ [] (skeleton_no_lf els false Hs)). cbn [rev app last forallb filter map min_list].
+  destruct (skeleton_first els Hne Hs Hf) as (b & t & Esk & Hb).
+  destruct (skeleton_last els false Hne Hs (last_ok_last_text_ok els false Hs Hl)) as [Hsk1 Hsk2].
+  assert (Hb1 : is_blank_line (skeleton (Pattern els)) = false).
+  { rewrite Esk. cbn [is_blank_line forallb]. rewrite N.eqb_sym, Hb. reflexivity. }
+  assert (Hb2 : leading_spaces (skeleton (Pattern els)) = 0) by (rewrite Esk; cbn [leading_spaces]; rewrite Hb; reflexivity).
+  assert (Hb3 : leading_spaces (rev (skeleton (Pattern els))) = 0).
+  { rewrite (rev_last _ Hsk1). cbn [leading_spaces]. rewrite Hsk2. reflexivity. }
+  rewrite Hb1, Hb2, Hb3. reflexivity.
+Qed.
 
 Lemma simple_attributes_wf attrs : forallb simple_attribute attrs = true -> forallb wf_attribute attrs = true.
 Proof.
@@ -1738,13 +2299,42 @@ Proof.
   unfold simple_resource, wf_resource. rewrite !forallb_forall. intros H e He. apply simple_entry_wf, H, He.
 Qed.
 
+Lemma simple_inline_join i : simple_inline i = true -> join_inline i = i.
+Proof.
+  destruct i as [s | v | id args | id att | id att args | id | e]; cbn [simple_inline]; intros Hi; try discriminate Hi;
+    try reflexivity.
+  destruct att; [discriminate|]. destruct args; [discriminate|]. reflexivity.
+Qed.
+
+Fixpoint join_els_map (l : list pattern_element) : list pattern_element :=
+  match l with [] => [] | x :: r => join_element x :: join_els_map r end.
+
+Lemma join_pattern_els els : join_pattern (Pattern els) = Pattern (join_elements (join_els_map els)).
+Proof. reflexivity. Qed.
+
+Lemma simple_elements_join els : forall prev, simple_elements els prev = true ->
+  join_elements (join_els_map els) = els.
+Proof.
+  induction els as [|el r IH]; intros prev Hs; [reflexivity|].
+  destruct el as [v | [sel vs | i]]; cbn [simple_elements] in Hs; try discriminate Hs.
+  - apply andb_prop in Hs as [_ Hr]. cbn [join_els_map join_element join_elements]. rewrite (IH true Hr).
+    destruct r as [|[v2 | e2] r2]; try reflexivity.
+    cbn [simple_elements] in Hr. discriminate Hr.
+  - apply andb_prop in Hs as [Hi Hr]. cbn [join_els_map join_element join_expr join_elements].
+    rewrite (simple_inline_join i Hi), (IH false Hr). reflexivity.
+Qed.
+
 Lemma simple_pattern_join p : simple_pattern p = true -> join_pattern p = p.
-Proof. intros H. destruct (simple_pattern_spec p H) as [v [-> Hv]]. reflexivity. Qed.
+Proof.
+  intros H. destruct (simple_pattern_spec p H) as [els [-> Hp]].
+  rewrite join_pattern_els, (simple_elements_join els false (simple_pattern_elements els Hp)). reflexivity.
+Qed.
 
 Lemma simple_attributes_join attrs : forallb simple_attribute attrs = true -> map join_attribute attrs = attrs.
 Proof.
   induction attrs as [|a r IH]; [reflexivity|]. cbn [forallb map]. intros H. apply andb_prop in H as [Ha Hr].
-  rewrite (IH Hr). destruct (simple_attribute_spec a Ha) as (aid & v & -> & _). reflexivity.
+  rewrite (IH Hr). destruct (simple_attribute_spec a Ha) as (aid & els & -> & _ & Hp).
+  unfold join_attribute. cbn [attr_id attr_value]. rewrite (simple_pattern_join _ Hp). reflexivity.
 Qed.
 
 Lemma simple_entry_join e : simple_entry e = true -> join_entry e = e.
